@@ -1,6 +1,2217 @@
-//! C07 — monitor not built yet.
-use crate::core::Ctx;
+//! C07 — generated keys are valid, self-consistent and usable for every seed and shape.
+//!
+//! Per generated key (library key builder driven with a seeded ChaCha8Rng) the monitor asserts
+//! (a) verify_bindings of the secret and of the public form, (b) equality after binary and armored
+//! export + re-import, (c) requested flags / features / preferences / user ids / creation time /
+//! version / algorithm, read through the library accessors AND through the independent reference
+//! parser of the exported bytes, (d) reference digests (left16) of every self-signature and of the
+//! embedded 0x19 back-signature plus an independent verification of the signature value with the
+//! primitive crates (Ed25519, EdDSA legacy, ECDSA P-256/384/521, Ed448), public-from-secret
+//! consistency computed by the reference, (e) usability: sign/verify, encrypt/decrypt, unlock with
+//! the right / wrong passphrase — using the re-imported key so that stripped MPIs must have been
+//! re-padded, (f) builder validation.  Leading-zero events are tallied per field.
+
+use pgp::composed::{
+    ArmorOptions, Deserializable, DetachedSignature, DsaKeySize, EncryptionCaps, KeyType, Message,
+    MessageBuilder, SecretKeyParams, SecretKeyParamsBuilder, SignedPublicKey, SignedSecretKey,
+    SubkeyParamsBuilder,
+};
+use pgp::crypto::aead::{AeadAlgorithm, ChunkSize};
+use pgp::crypto::ecc_curve::ECCCurve;
+use pgp::crypto::hash::HashAlgorithm;
+use pgp::crypto::sym::SymmetricKeyAlgorithm;
+use pgp::packet::{
+    PacketTrait, Signature, SignatureConfig, SignatureType, Subpacket, SubpacketData, UserAttribute,
+};
+use pgp::ser::Serialize;
+use pgp::types::{
+    CompressionAlgorithm, EncryptionKey, KeyDetails, KeyVersion, Password, S2kParams, SigningKey,
+    StringToKey, Timestamp, VerifyingKey,
+};
+use rand::seq::SliceRandom;
+use rand::{Rng, RngCore};
+use rand_chacha::ChaCha8Rng;
+use serde_json::{json, Value};
+
+use crate::core::{describe_case, guard, hexs, Ctx};
+use crate::rfc;
+use crate::rfc::key::{RefPub, RefSecret};
+use crate::rfc::sig::{parse_sig, parse_subpackets, RefSig, RefSubpacket};
+
+// ------------------------------------------------------------------------------------------
+// shapes
+
+#[derive(Clone, Copy, Debug, PartialEq, Eq, Hash)]
+enum Alg {
+    Rsa,
+    Dsa,
+    EdLegacy,
+    Ed25519,
+    Ed448,
+    P256,
+    P384,
+    P521,
+    K256,
+    EcdhP256,
+    EcdhP384,
+    EcdhP521,
+    EcdhCv,
+    X25519,
+    X448,
+}
+
+impl Alg {
+    fn key_type(self) -> KeyType {
+        match self {
+            Alg::Rsa => KeyType::Rsa(2048),
+            Alg::Dsa => KeyType::Dsa(DsaKeySize::B2048),
+            Alg::EdLegacy => KeyType::Ed25519Legacy,
+            Alg::Ed25519 => KeyType::Ed25519,
+            Alg::Ed448 => KeyType::Ed448,
+            Alg::P256 => KeyType::ECDSA(ECCCurve::P256),
+            Alg::P384 => KeyType::ECDSA(ECCCurve::P384),
+            Alg::P521 => KeyType::ECDSA(ECCCurve::P521),
+            Alg::K256 => KeyType::ECDSA(ECCCurve::Secp256k1),
+            Alg::EcdhP256 => KeyType::ECDH(ECCCurve::P256),
+            Alg::EcdhP384 => KeyType::ECDH(ECCCurve::P384),
+            Alg::EcdhP521 => KeyType::ECDH(ECCCurve::P521),
+            Alg::EcdhCv => KeyType::ECDH(ECCCurve::Curve25519Legacy),
+            Alg::X25519 => KeyType::X25519,
+            Alg::X448 => KeyType::X448,
+        }
+    }
+    fn name(self) -> &'static str {
+        match self {
+            Alg::Rsa => "RSA2048",
+            Alg::Dsa => "DSA2048",
+            Alg::EdLegacy => "Ed25519Legacy",
+            Alg::Ed25519 => "Ed25519",
+            Alg::Ed448 => "Ed448",
+            Alg::P256 => "ECDSA-P256",
+            Alg::P384 => "ECDSA-P384",
+            Alg::P521 => "ECDSA-P521",
+            Alg::K256 => "ECDSA-secp256k1",
+            Alg::EcdhP256 => "ECDH-P256",
+            Alg::EcdhP384 => "ECDH-P384",
+            Alg::EcdhP521 => "ECDH-P521",
+            Alg::EcdhCv => "ECDH-Curve25519Legacy",
+            Alg::X25519 => "X25519",
+            Alg::X448 => "X448",
+        }
+    }
+    /// OpenPGP public key algorithm id
+    fn id(self) -> u8 {
+        match self {
+            Alg::Rsa => 1,
+            Alg::Dsa => 17,
+            Alg::EdLegacy => 22,
+            Alg::Ed25519 => 27,
+            Alg::Ed448 => 28,
+            Alg::P256 | Alg::P384 | Alg::P521 | Alg::K256 => 19,
+            Alg::EcdhP256 | Alg::EcdhP384 | Alg::EcdhP521 | Alg::EcdhCv => 18,
+            Alg::X25519 => 25,
+            Alg::X448 => 26,
+        }
+    }
+    fn oid(self) -> Option<&'static [u8]> {
+        Some(match self {
+            Alg::EdLegacy => rfc::key::OID_ED25519,
+            Alg::P256 | Alg::EcdhP256 => rfc::key::OID_P256,
+            Alg::P384 | Alg::EcdhP384 => rfc::key::OID_P384,
+            Alg::P521 | Alg::EcdhP521 => rfc::key::OID_P521,
+            Alg::K256 => rfc::key::OID_K256,
+            Alg::EcdhCv => rfc::key::OID_CV25519,
+            _ => return None,
+        })
+    }
+    fn can_sign(self) -> bool {
+        matches!(
+            self,
+            Alg::Rsa
+                | Alg::Dsa
+                | Alg::EdLegacy
+                | Alg::Ed25519
+                | Alg::Ed448
+                | Alg::P256
+                | Alg::P384
+                | Alg::P521
+                | Alg::K256
+        )
+    }
+    fn v4_only(self) -> bool {
+        matches!(self, Alg::EdLegacy | Alg::EcdhCv)
+    }
+}
+
+#[derive(Clone, Copy, Debug, PartialEq, Eq)]
+enum S2kKind {
+    /// library default for the key version (.s2k(None))
+    Default,
+    CfbIter,
+    AeadIter,
+    AeadArgon2,
+}
+
+impl S2kKind {
+    fn name(self) -> &'static str {
+        match self {
+            S2kKind::Default => "default",
+            S2kKind::CfbIter => "cfb-iterated",
+            S2kKind::AeadIter => "aead-iterated",
+            S2kKind::AeadArgon2 => "aead-argon2",
+        }
+    }
+}
+
+#[derive(Clone, Debug)]
+struct SubShape {
+    alg: Alg,
+    sign: bool,
+    enc: EncryptionCaps,
+    auth: bool,
+    locked: bool,
+    /// creation time offset (seconds) relative to the primary
+    created_off: u32,
+}
+
+#[derive(Clone, Debug)]
+struct Shape {
+    v6: bool,
+    primary: Alg,
+    sign: bool,
+    certify: bool,
+    auth: bool,
+    enc: EncryptionCaps,
+    feat1: bool,
+    feat2: bool,
+    /// all user ids in packet order; the first one is the primary one iff has_primary
+    uids: Vec<String>,
+    has_primary: bool,
+    attr: Option<Vec<u8>>,
+    sym: Vec<u8>,
+    hash: Vec<u8>,
+    comp: Vec<u8>,
+    aead: Vec<(u8, u8)>,
+    pass: Option<String>,
+    lock_primary: bool,
+    s2k: S2kKind,
+    subs: Vec<SubShape>,
+    created: u32,
+    /// the library may legitimately refuse this shape (outcome is only tallied)
+    uncertain: bool,
+}
+
+fn caps_bits(c: EncryptionCaps) -> u8 {
+    match c {
+        EncryptionCaps::None => 0,
+        EncryptionCaps::Communication => 0x04,
+        EncryptionCaps::Storage => 0x08,
+        EncryptionCaps::All => 0x0C,
+    }
+}
+
+impl Shape {
+    fn primary_flags(&self) -> u8 {
+        (self.certify as u8)
+            | (self.sign as u8) << 1
+            | caps_bits(self.enc)
+            | (self.auth as u8) << 5
+    }
+    fn features(&self) -> u8 {
+        (self.feat1 as u8) | (self.feat2 as u8) << 3
+    }
+    fn desc(&self) -> String {
+        let subs: Vec<String> = self
+            .subs
+            .iter()
+            .map(|s| {
+                format!(
+                    "{}{}{}{}{}",
+                    s.alg.name(),
+                    if s.sign { "+S" } else { "" },
+                    match s.enc {
+                        EncryptionCaps::None => "",
+                        EncryptionCaps::Communication => "+Ec",
+                        EncryptionCaps::Storage => "+Es",
+                        EncryptionCaps::All => "+E",
+                    },
+                    if s.auth { "+A" } else { "" },
+                    if s.locked { "+L" } else { "" }
+                )
+            })
+            .collect();
+        format!(
+            "{} {} flags={:#04x} feat={:#04x} uids={}{} attr={} prefs={}/{}/{}/{} lock={} subs=[{}] created={}",
+            if self.v6 { "v6" } else { "v4" },
+            self.primary.name(),
+            self.primary_flags(),
+            self.features(),
+            self.uids.len(),
+            if self.has_primary { "(primary)" } else { "" },
+            self.attr.is_some(),
+            self.sym.len(),
+            self.hash.len(),
+            self.comp.len(),
+            self.aead.len(),
+            match (&self.pass, self.lock_primary) {
+                (None, _) => "none".to_string(),
+                (Some(_), p) => format!("{}{}", self.s2k.name(), if p { "" } else { "(subkeys only)" }),
+            },
+            subs.join(","),
+            self.created
+        )
+    }
+}
+
+fn pick<T: Copy>(r: &mut ChaCha8Rng, items: &[(T, u32)]) -> T {
+    let total: u32 = items.iter().map(|x| x.1).sum();
+    let mut k = r.gen_range(0..total);
+    for (t, w) in items {
+        if k < *w {
+            return *t;
+        }
+        k -= *w;
+    }
+    items[0].0
+}
+
+fn subset(r: &mut ChaCha8Rng, pool: &[u8], max: usize) -> Vec<u8> {
+    let mut p = pool.to_vec();
+    p.shuffle(r);
+    let n = r.gen_range(1..=max.min(p.len()));
+    p.truncate(n);
+    p
+}
+
+fn random_uid(r: &mut ChaCha8Rng, i: usize) -> String {
+    let words = ["Alice", "Bob", "Zoë", "Łukasz", "山田", "O'Neil", "x", "Dr. Ünal", "a b  c"];
+    let w = words[r.gen_range(0..words.len())];
+    match r.gen_range(0..10) {
+        0 => format!("{w}{i}"),
+        1 => format!("<u{i}@example.org>"),
+        2 => {
+            // long id: 2-octet packet length
+            let mut s = format!("{w} {i} ");
+            while s.len() < 200 + r.gen_range(0..150) {
+                s.push_str("lorem ipsum ");
+            }
+            s
+        }
+        _ => format!("{w} {i} <{}{i}@example.org>", w.to_lowercase().replace(' ', ".")),
+    }
+}
+
+fn random_pass(r: &mut ChaCha8Rng) -> String {
+    match r.gen_range(0..30) {
+        0 => String::new(),
+        1 => "pässwörd ✓".to_string(),
+        2 => " leading and trailing ".to_string(),
+        _ => {
+            let n = r.gen_range(1..24);
+            (0..n).map(|_| (b'!' + r.gen_range(0..94u8)) as char).collect()
+        }
+    }
+}
+
+fn random_sub(r: &mut ChaCha8Rng, v6: bool, locked: bool) -> SubShape {
+    use Alg::*;
+    let mut pool: Vec<(Alg, u32)> = vec![
+        (EcdhP256, 6),
+        (EcdhP384, 6),
+        (EcdhP521, 2),
+        (X25519, 4),
+        (X448, 2),
+        (Ed25519, 2),
+        (P256, 2),
+        (P384, 1),
+        (P521, 1),
+        (K256, 1),
+        (Ed448, 1),
+    ];
+    if !v6 {
+        pool.push((EcdhCv, 4));
+        pool.push((EdLegacy, 2));
+    }
+    let alg = pick(r, &pool);
+    if alg.can_sign() {
+        let auth_only = r.gen_range(0..12) == 0;
+        SubShape {
+            alg,
+            sign: !auth_only,
+            enc: EncryptionCaps::None,
+            auth: auth_only || r.gen_range(0..5) == 0,
+            locked,
+            created_off: r.gen_range(0..3) * 1000,
+        }
+    } else {
+        SubShape {
+            alg,
+            sign: false,
+            enc: pick(
+                r,
+                &[
+                    (EncryptionCaps::All, 6),
+                    (EncryptionCaps::Communication, 2),
+                    (EncryptionCaps::Storage, 2),
+                ],
+            ),
+            auth: false,
+            locked,
+            created_off: r.gen_range(0..3) * 1000,
+        }
+    }
+}
+
+/// Shape of a key with a fast primary algorithm; everything but the primary algorithm and the
+/// version (alternating) is drawn from `r`.
+fn fast_shape(r: &mut ChaCha8Rng, primary: Alg, j: u64) -> Shape {
+    let v6 = !primary.v4_only() && j % 2 == 1;
+    let nuids = if v6 { r.gen_range(0..=3) } else { r.gen_range(1..=3) };
+    let uids: Vec<String> = (0..nuids).map(|i| random_uid(r, i)).collect();
+    let has_primary = !v6 || (nuids > 0 && r.gen_range(0..5) != 0);
+    let attr = (r.gen_range(0..10) == 0).then(|| {
+        let n = r.gen_range(1..300);
+        let mut v = vec![0u8; n];
+        r.fill_bytes(&mut v);
+        v
+    });
+    let (sym, hash, comp, aead) = if r.gen_range(0..4) == 0 {
+        (vec![], vec![], vec![], vec![])
+    } else {
+        let sym = subset(r, &[7, 8, 9, 10, 11, 12, 13, 3, 2], 8);
+        let hash = subset(r, &[8, 9, 10, 11, 12, 14, 2], 7);
+        let comp = subset(r, &[0, 1, 2, 3], 4);
+        let mut pairs: Vec<(u8, u8)> = vec![];
+        for s in [7u8, 8, 9] {
+            for a in [1u8, 2, 3] {
+                pairs.push((s, a));
+            }
+        }
+        pairs.shuffle(r);
+        pairs.truncate(r.gen_range(0..=5));
+        (sym, hash, comp, pairs)
+    };
+    let locked = r.gen_range(0..5) < 2;
+    let (lock_primary, lock_subs) = if locked {
+        pick(r, &[((true, true), 14), ((true, false), 3), ((false, true), 3)])
+    } else {
+        (false, false)
+    };
+    let s2k = pick(r, &[(S2kKind::CfbIter, 5), (S2kKind::AeadArgon2, 3), (S2kKind::AeadIter, 2)]);
+    let nsubs = pick(r, &[(0usize, 3), (1, 9), (2, 6), (3, 2)]);
+    let subs: Vec<SubShape> = (0..nsubs).map(|_| random_sub(r, v6, lock_subs)).collect();
+    let created = match r.gen_range(0..100) {
+        0 => 1,
+        1 => 0x7FFF_FFFF_u32.min(1_750_000_000),
+        _ => r.gen_range(1_000_000_000..1_750_000_000),
+    };
+    Shape {
+        v6,
+        primary,
+        sign: r.gen_range(0..5) != 0,
+        certify: r.gen_range(0..10) != 0,
+        auth: r.gen_range(0..5) == 0,
+        enc: EncryptionCaps::None,
+        feat1: r.gen_range(0..7) != 0,
+        feat2: if v6 { r.gen_range(0..10) < 7 } else { r.gen_range(0..5) == 0 },
+        uids,
+        has_primary,
+        attr,
+        sym,
+        hash,
+        comp,
+        aead,
+        pass: locked.then(|| random_pass(r)),
+        lock_primary,
+        s2k,
+        subs,
+        created,
+        uncertain: v6 && matches!(primary, Alg::K256 | Alg::Dsa),
+    }
+}
+
+fn make_s2k(kind: S2kKind, r: &mut ChaCha8Rng) -> Option<S2kParams> {
+    let sym = *[
+        SymmetricKeyAlgorithm::AES128,
+        SymmetricKeyAlgorithm::AES192,
+        SymmetricKeyAlgorithm::AES256,
+        SymmetricKeyAlgorithm::Camellia256,
+        SymmetricKeyAlgorithm::Twofish,
+    ]
+    .choose(r)
+    .unwrap();
+    let iter = |r: &mut ChaCha8Rng| {
+        let h = *[
+            HashAlgorithm::Sha256,
+            HashAlgorithm::Sha384,
+            HashAlgorithm::Sha512,
+            HashAlgorithm::Sha224,
+        ]
+        .choose(r)
+        .unwrap();
+        let count = r.gen_range(0..0x60u8);
+        StringToKey::new_iterated(&mut *r, h, count)
+    };
+    match kind {
+        S2kKind::Default => None,
+        S2kKind::CfbIter => {
+            let mut iv = vec![0u8; sym.block_size()];
+            r.fill_bytes(&mut iv);
+            let s2k = iter(r);
+            Some(S2kParams::Cfb { sym_alg: sym, s2k, iv: iv.into() })
+        }
+        S2kKind::AeadIter | S2kKind::AeadArgon2 => {
+            let sym = *[
+                SymmetricKeyAlgorithm::AES128,
+                SymmetricKeyAlgorithm::AES192,
+                SymmetricKeyAlgorithm::AES256,
+            ]
+            .choose(r)
+            .unwrap();
+            let aead = *[AeadAlgorithm::Eax, AeadAlgorithm::Ocb, AeadAlgorithm::Gcm].choose(r).unwrap();
+            let mut nonce = vec![0u8; aead.nonce_size()];
+            r.fill_bytes(&mut nonce);
+            let s2k = if kind == S2kKind::AeadIter {
+                iter(r)
+            } else {
+                let p = r.gen_range(1..=2u8);
+                let m = r.gen_range(5..=7u8);
+                StringToKey::new_argon2(&mut *r, 1, p, m)
+            };
+            Some(S2kParams::Aead { sym_alg: sym, aead_mode: aead, s2k, nonce: nonce.into() })
+        }
+    }
+}
+
+fn build_params(s: &Shape, r: &mut ChaCha8Rng) -> Result<SecretKeyParams, String> {
+    let ver = if s.v6 { KeyVersion::V6 } else { KeyVersion::V4 };
+    let mut b = SecretKeyParamsBuilder::default();
+    b.version(ver)
+        .key_type(s.primary.key_type())
+        .can_sign(s.sign)
+        .can_certify(s.certify)
+        .can_authenticate(s.auth)
+        .can_encrypt(s.enc)
+        .created_at(Timestamp::from_secs(s.created))
+        .feature_seipd_v1(s.feat1)
+        .feature_seipd_v2(s.feat2)
+        .preferred_symmetric_algorithms(s.sym.iter().map(|x| SymmetricKeyAlgorithm::from(*x)).collect())
+        .preferred_hash_algorithms(s.hash.iter().map(|x| HashAlgorithm::from(*x)).collect())
+        .preferred_compression_algorithms(s.comp.iter().map(|x| CompressionAlgorithm::from(*x)).collect())
+        .preferred_aead_algorithms(
+            s.aead
+                .iter()
+                .map(|(a, b)| (SymmetricKeyAlgorithm::from(*a), AeadAlgorithm::from(*b)))
+                .collect(),
+        );
+    for (i, u) in s.uids.iter().enumerate() {
+        if i == 0 && s.has_primary {
+            b.primary_user_id(u.clone());
+        } else {
+            b.user_id(u.clone());
+        }
+    }
+    if let Some(img) = &s.attr {
+        let a = UserAttribute::new_image(img.clone().into()).map_err(|e| format!("new_image: {e}"))?;
+        b.user_attributes(vec![a]);
+    }
+    if let (Some(pw), true) = (&s.pass, s.lock_primary) {
+        b.passphrase(Some(pw.clone()));
+        b.s2k(make_s2k(s.s2k, r));
+    }
+    for sub in &s.subs {
+        let mut sb = SubkeyParamsBuilder::default();
+        sb.version(ver)
+            .key_type(sub.alg.key_type())
+            .can_sign(sub.sign)
+            .can_encrypt(sub.enc)
+            .can_authenticate(sub.auth)
+            .created_at(Timestamp::from_secs(s.created.saturating_add(sub.created_off)));
+        if let (Some(pw), true) = (&s.pass, sub.locked) {
+            sb.passphrase(Some(pw.clone()));
+            sb.s2k(make_s2k(s.s2k, r));
+        }
+        b.subkey(sb.build().map_err(|e| format!("subkey build: {e}"))?);
+    }
+    b.build().map_err(|e| format!("build: {e}"))
+}
+
+// ------------------------------------------------------------------------------------------
+// reference side: certificate structure, independent verification, public-from-secret
+
+struct RefKeyPkt {
+    tag: u8,
+    body: Vec<u8>,
+    public: RefPub,
+    /// body of the corresponding *public* key packet (prefix of a secret key body)
+    pub_body: Vec<u8>,
+}
+
+struct RefComponent {
+    /// 13 user id, 17 user attribute
+    tag: u8,
+    body: Vec<u8>,
+    sigs: Vec<Vec<u8>>,
+}
+
+struct RefCert {
+    primary: RefKeyPkt,
+    direct: Vec<Vec<u8>>,
+    comps: Vec<RefComponent>,
+    subs: Vec<(RefKeyPkt, Vec<Vec<u8>>)>,
+}
+
+fn ref_key_pkt(tag: u8, body: &[u8]) -> Result<RefKeyPkt, String> {
+    let (public, n) = RefPub::parse_prefix(body).ok_or_else(|| format!("reference cannot parse key packet tag {tag}"))?;
+    if matches!(tag, 6 | 14) && n != body.len() {
+        return Err(format!("public key packet tag {tag}: {} trailing octets", body.len() - n));
+    }
+    if public.encode() != body[..n] {
+        return Err("reference re-encoding of the public key differs".into());
+    }
+    Ok(RefKeyPkt { tag, body: body.to_vec(), public, pub_body: body[..n].to_vec() })
+}
+
+fn ref_cert(bytes: &[u8]) -> Result<RefCert, String> {
+    let pk = rfc::frame::deframe(bytes)?;
+    rfc::frame::check_written(&pk)?;
+    let mut it = pk.into_iter().peekable();
+    let first = it.next().ok_or("empty export")?;
+    if !matches!(first.tag, 5 | 6) {
+        return Err(format!("first packet has tag {}", first.tag));
+    }
+    let mut cert = RefCert {
+        primary: ref_key_pkt(first.tag, &first.body)?,
+        direct: vec![],
+        comps: vec![],
+        subs: vec![],
+    };
+    // 0 = after primary, 1 = in components, 2 = in subkeys
+    let mut phase = 0;
+    for p in it {
+        match p.tag {
+            2 => match phase {
+                0 => cert.direct.push(p.body),
+                1 => cert.comps.last_mut().unwrap().sigs.push(p.body),
+                _ => cert.subs.last_mut().unwrap().1.push(p.body),
+            },
+            13 | 17 => {
+                if phase == 2 {
+                    return Err("user id after subkey".into());
+                }
+                phase = 1;
+                cert.comps.push(RefComponent { tag: p.tag, body: p.body, sigs: vec![] });
+            }
+            7 | 14 => {
+                phase = 2;
+                cert.subs.push((ref_key_pkt(p.tag, &p.body)?, vec![]));
+            }
+            t => return Err(format!("unexpected packet tag {t} in exported key")),
+        }
+    }
+    Ok(cert)
+}
+
+fn pad_left(v: &[u8], n: usize) -> Option<Vec<u8>> {
+    if v.len() > n {
+        return None;
+    }
+    let mut o = vec![0u8; n - v.len()];
+    o.extend_from_slice(v);
+    Some(o)
+}
+
+/// (oid, point, offset after the point MPI) of ECC public material
+fn ecc_parts(m: &[u8]) -> Option<(&[u8], &[u8], usize)> {
+    let l = *m.first()? as usize;
+    let oid = m.get(1..1 + l)?;
+    let (pt, p) = rfc::read_mpi(m, 1 + l)?;
+    Some((oid, pt, p))
+}
+
+fn fsize_of_oid(oid: &[u8]) -> Option<usize> {
+    use rfc::key::*;
+    Some(if oid == OID_P256 || oid == OID_K256 || oid == OID_ED25519 || oid == OID_CV25519 {
+        32
+    } else if oid == OID_P384 {
+        48
+    } else if oid == OID_P521 {
+        66
+    } else {
+        return None;
+    })
+}
+
+/// label used in the leading-zero tallies
+fn alg_label(p: &RefPub) -> String {
+    use rfc::key::*;
+    let curve = |m: &[u8]| -> &'static str {
+        match ecc_parts(m) {
+            Some((o, _, _)) if o == OID_P256 => "p256",
+            Some((o, _, _)) if o == OID_P384 => "p384",
+            Some((o, _, _)) if o == OID_P521 => "p521",
+            Some((o, _, _)) if o == OID_K256 => "k256",
+            Some((o, _, _)) if o == OID_CV25519 => "cv25519",
+            Some((o, _, _)) if o == OID_ED25519 => "ed25519",
+            _ => "unknown",
+        }
+    };
+    match p.alg {
+        1 => "rsa".into(),
+        17 => "dsa".into(),
+        18 => format!("ecdh-{}", curve(&p.material)),
+        19 => format!("ecdsa-{}", curve(&p.material)),
+        22 => "eddsa-legacy".into(),
+        25 => "x25519".into(),
+        26 => "x448".into(),
+        27 => "ed25519".into(),
+        28 => "ed448".into(),
+        a => format!("alg{a}"),
+    }
+}
+
+/// Independent verification of a signature value over `digest`.
+/// None = no independent primitive for this algorithm in the harness.
+fn ref_verify(p: &RefPub, digest: &[u8], sig: &[u8]) -> Option<Result<(), String>> {
+    use p256::ecdsa::signature::hazmat::PrehashVerifier;
+    use rfc::key::*;
+    let two_mpis = |sig: &[u8], n: usize| -> Result<Vec<u8>, String> {
+        let (r, p1) = rfc::read_mpi(sig, 0).ok_or("signature: r truncated")?;
+        let (s, p2) = rfc::read_mpi(sig, p1).ok_or("signature: s truncated")?;
+        if p2 != sig.len() {
+            return Err("signature: trailing octets".into());
+        }
+        let mut o = pad_left(r, n).ok_or("signature: r too long")?;
+        o.extend(pad_left(s, n).ok_or("signature: s too long")?);
+        Ok(o)
+    };
+    let ed = |key: &[u8], rs: &[u8]| -> Result<(), String> {
+        let vk = ed25519_dalek::VerifyingKey::from_bytes(key.try_into().map_err(|_| "ed25519 key length")?)
+            .map_err(|e| format!("ed25519 key: {e}"))?;
+        let s = ed25519_dalek::Signature::from_slice(rs).map_err(|e| format!("ed25519 sig: {e}"))?;
+        vk.verify_strict(digest, &s).map_err(|e| format!("ed25519 verify: {e}"))
+    };
+    Some(match p.alg {
+        27 => {
+            if p.material.len() != 32 || sig.len() != 64 {
+                Err(format!("ed25519 sizes {} / {}", p.material.len(), sig.len()))
+            } else {
+                ed(&p.material, sig)
+            }
+        }
+        22 => (|| {
+            let (oid, pt, _) = ecc_parts(&p.material).ok_or("eddsa legacy material")?;
+            if oid != OID_ED25519 || pt.len() != 33 || pt[0] != 0x40 {
+                return Err("eddsa legacy: not a 0x40-prefixed Ed25519 point".to_string());
+            }
+            ed(&pt[1..], &two_mpis(sig, 32)?)
+        })(),
+        28 => (|| {
+            let k: [u8; 57] = p.material[..].try_into().map_err(|_| "ed448 key length".to_string())?;
+            let s: [u8; 114] = sig.try_into().map_err(|_| "ed448 signature length".to_string())?;
+            let vk = cx448::VerifyingKey::from_bytes(&k).map_err(|e| format!("ed448 key: {e}"))?;
+            let s = cx448::Signature::from_bytes(&s).map_err(|e| format!("ed448 sig: {e}"))?;
+            vk.verify_raw(&s, digest).map_err(|e| format!("ed448 verify: {e}"))
+        })(),
+        19 => {
+            let (oid, pt, _) = match ecc_parts(&p.material) {
+                Some(x) => x,
+                None => return Some(Err("ecdsa material".into())),
+            };
+            macro_rules! nist {
+                ($c:ident, $n:expr) => {
+                    (|| {
+                        let vk = $c::ecdsa::VerifyingKey::from_sec1_bytes(pt).map_err(|e| format!("ecdsa point: {e}"))?;
+                        let rs = two_mpis(sig, $n)?;
+                        let s = $c::ecdsa::Signature::from_slice(&rs).map_err(|e| format!("ecdsa sig: {e}"))?;
+                        vk.verify_prehash(digest, &s).map_err(|e| format!("ecdsa verify: {e}"))
+                    })()
+                };
+            }
+            if oid == OID_P256 {
+                nist!(p256, 32)
+            } else if oid == OID_P384 {
+                nist!(p384, 48)
+            } else if oid == OID_P521 {
+                nist!(p521, 66)
+            } else {
+                return None;
+            }
+        }
+        _ => return None,
+    })
+}
+
+/// Does the public material belong to the secret material (raw, without checksum)?
+/// None = no independent primitive.
+fn ref_pub_from_secret(p: &RefPub, sec: &[u8]) -> Option<Result<(), String>> {
+    use p256::elliptic_curve::sec1::ToEncodedPoint;
+    use rfc::key::*;
+    let cmp = |got: &[u8], want: &[u8]| -> Result<(), String> {
+        if got == want {
+            Ok(())
+        } else {
+            Err(format!("public computed from the secret {} != public in the packet {}", hex::encode(got), hex::encode(want)))
+        }
+    };
+    let one_mpi = |sec: &[u8]| -> Result<Vec<u8>, String> {
+        let (v, n) = rfc::read_mpi(sec, 0).ok_or("secret MPI truncated")?;
+        if n != sec.len() {
+            return Err(format!("secret material: {} trailing octets", sec.len() - n));
+        }
+        Ok(v.to_vec())
+    };
+    Some(match p.alg {
+        27 => (|| {
+            let k: [u8; 32] = sec.try_into().map_err(|_| format!("ed25519 secret length {}", sec.len()))?;
+            cmp(ed25519_dalek::SigningKey::from_bytes(&k).verifying_key().as_bytes(), &p.material)
+        })(),
+        22 => (|| {
+            let (_, pt, _) = ecc_parts(&p.material).ok_or("material")?;
+            let k: [u8; 32] = pad_left(&one_mpi(sec)?, 32).ok_or("secret too long")?.try_into().unwrap();
+            cmp(ed25519_dalek::SigningKey::from_bytes(&k).verifying_key().as_bytes(), pt.get(1..).unwrap_or(&[]))
+        })(),
+        25 => (|| {
+            let k: [u8; 32] = sec.try_into().map_err(|_| format!("x25519 secret length {}", sec.len()))?;
+            let s = x25519_dalek::StaticSecret::from(k);
+            cmp(x25519_dalek::PublicKey::from(&s).as_bytes(), &p.material)
+        })(),
+        26 => (|| {
+            let k: [u8; 56] = sec.try_into().map_err(|_| format!("x448 secret length {}", sec.len()))?;
+            let s = cx448::x448::Secret::from(k);
+            cmp(cx448::x448::PublicKey::from(&s).as_bytes(), &p.material)
+        })(),
+        28 => (|| {
+            if sec.len() != 57 {
+                return Err(format!("ed448 secret length {}", sec.len()));
+            }
+            let sk = cx448::SigningKey::from(cx448::SecretKey::from_slice(sec));
+            cmp(&sk.verifying_key().to_bytes()[..], &p.material)
+        })(),
+        18 | 19 => {
+            let (oid, pt, _) = match ecc_parts(&p.material) {
+                Some(x) => x,
+                None => return Some(Err("ecc material".into())),
+            };
+            let d = match one_mpi(sec) {
+                Ok(d) => d,
+                Err(e) => return Some(Err(e)),
+            };
+            macro_rules! nist {
+                ($c:ident, $n:expr) => {
+                    (|| {
+                        let sk = $c::SecretKey::from_slice(&pad_left(&d, $n).ok_or("secret too long")?)
+                            .map_err(|e| format!("secret scalar: {e}"))?;
+                        cmp(sk.public_key().to_encoded_point(false).as_bytes(), pt)
+                    })()
+                };
+            }
+            if oid == OID_P256 {
+                nist!(p256, 32)
+            } else if oid == OID_P384 {
+                nist!(p384, 48)
+            } else if oid == OID_P521 {
+                nist!(p521, 66)
+            } else if oid == OID_CV25519 {
+                (|| {
+                    let mut k: [u8; 32] = pad_left(&d, 32).ok_or("secret too long")?.try_into().unwrap();
+                    k.reverse();
+                    let s = x25519_dalek::StaticSecret::from(k);
+                    cmp(x25519_dalek::PublicKey::from(&s).as_bytes(), pt.get(1..).unwrap_or(&[]))
+                })()
+            } else {
+                return None;
+            }
+        }
+        _ => return None,
+    })
+}
+
+// ------------------------------------------------------------------------------------------
+// reporting helper
+
+struct K<'a> {
+    ctx: &'a mut Ctx,
+    replay: Value,
+    desc: String,
+}
+
+impl K<'_> {
+    fn v(&mut self, sig: impl Into<String>, detail: impl AsRef<str>) {
+        let d = format!("{}; shape: {}", detail.as_ref(), self.desc);
+        self.ctx.violation(sig, d, self.replay.clone());
+    }
+    /// one sample of a stripped-leading-zero capable field: `len` octets on the wire, `full` = field size
+    fn lz(&mut self, field: &str, len: usize, full: usize) {
+        self.ctx.tally(&format!("n.{field}"), 1);
+        if len < full {
+            self.ctx.tally(&format!("lz.{field}"), 1);
+            self.ctx.seen("lz", field);
+        }
+    }
+    /// a fixed-width field whose first octet is zero (no length effect, tallied for the record)
+    fn z0(&mut self, field: &str, first: Option<&u8>) {
+        if first == Some(&0) {
+            self.ctx.tally(&format!("z0.{field}"), 1);
+        }
+    }
+}
+
+fn now_secs() -> u32 {
+    std::time::SystemTime::now()
+        .duration_since(std::time::UNIX_EPOCH)
+        .map(|d| d.as_secs() as u32)
+        .unwrap_or(0)
+}
+
+/// what the self-signature carrying the key metadata must say
+struct Meta {
+    flags: u8,
+    features: u8,
+    sym: Vec<u8>,
+    hash: Vec<u8>,
+    comp: Vec<u8>,
+    aead: Vec<u8>,
+}
+
+fn meta_of(s: &Shape) -> Meta {
+    Meta {
+        flags: s.primary_flags(),
+        features: s.features(),
+        sym: s.sym.clone(),
+        hash: s.hash.clone(),
+        comp: s.comp.clone(),
+        aead: s.aead.iter().flat_map(|(a, b)| [*a, *b]).collect(),
+    }
+}
+
+fn find_sp(subs: &[RefSubpacket], typ: u8) -> Option<&RefSubpacket> {
+    subs.iter().find(|s| s.typ == typ)
+}
+
+/// first octet must be `want`, all further octets zero; an absent subpacket equals all-zero flags
+fn flags_ok(sp: Option<&RefSubpacket>, want: u8) -> bool {
+    match sp {
+        None => want == 0,
+        Some(sp) => {
+            sp.body.first().copied().unwrap_or(0) == want && sp.body.iter().skip(1).all(|b| *b == 0)
+        }
+    }
+}
+
+fn list_ok(sp: Option<&RefSubpacket>, want: &[u8]) -> bool {
+    match sp {
+        None => want.is_empty(),
+        Some(sp) => sp.body == want,
+    }
+}
+
+/// reference check of the metadata subpackets; `exact` = this is the signature that must carry
+/// them (otherwise only: what is present must not contradict the request)
+fn check_meta_ref(k: &mut K, what: &str, hashed: &[RefSubpacket], m: &Meta, exact: bool) {
+    let show = |t: u8| find_sp(hashed, t).map(|s| hex::encode(&s.body)).unwrap_or_else(|| "absent".into());
+    let checks: [(u8, &str, bool, String); 6] = [
+        (27, "key-flags", flags_ok(find_sp(hashed, 27), m.flags), format!("{:02x}", m.flags)),
+        (30, "features", flags_ok(find_sp(hashed, 30), m.features), format!("{:02x}", m.features)),
+        (11, "pref-sym", list_ok(find_sp(hashed, 11), &m.sym), hex::encode(&m.sym)),
+        (21, "pref-hash", list_ok(find_sp(hashed, 21), &m.hash), hex::encode(&m.hash)),
+        (22, "pref-compression", list_ok(find_sp(hashed, 22), &m.comp), hex::encode(&m.comp)),
+        (39, "pref-aead", list_ok(find_sp(hashed, 39), &m.aead), hex::encode(&m.aead)),
+    ];
+    for (t, name, ok, want) in checks {
+        if !exact && find_sp(hashed, t).is_none() {
+            continue;
+        }
+        if !ok {
+            k.v(
+                format!("C07/meta-ref/{name}"),
+                format!("{what}: subpacket {t} is {} but {want} was requested", show(t)),
+            );
+        }
+    }
+}
+
+struct SigInfo {
+    hashed: Vec<RefSubpacket>,
+}
+
+/// Reference checks of one self-signature: type, version, algorithm, digest prefix, independent
+/// verification, creation time, issuer. Returns the parsed hashed area.
+#[allow(clippy::too_many_arguments)]
+fn check_selfsig(
+    k: &mut K,
+    what: &str,
+    body: &[u8],
+    typ_ok: &[u8],
+    content: &[&[u8]],
+    signer: &RefPub,
+    window: (u32, u32),
+) -> Option<SigInfo> {
+    let rs: RefSig = match parse_sig(body) {
+        Ok(r) => r,
+        Err(e) => {
+            k.ctx.inconclusive(format!("reference cannot parse signature: {e}"));
+            return None;
+        }
+    };
+    k.ctx.eval();
+    if !typ_ok.contains(&rs.typ) {
+        k.v("C07/selfsig/type", format!("{what}: signature type {:#04x}, expected one of {typ_ok:02x?}", rs.typ));
+        return None;
+    }
+    let want_ver = if signer.version == 6 { 6 } else { 4 };
+    if rs.version != want_ver {
+        k.v("C07/selfsig/version", format!("{what}: v{} signature by a v{} key", rs.version, signer.version));
+    }
+    if rs.pub_alg != signer.alg {
+        k.v("C07/selfsig/algorithm", format!("{what}: signature algorithm {} but signer key algorithm {}", rs.pub_alg, signer.alg));
+    }
+    if rs.version == 6 && rfc::salt_len(rs.hash_alg) != Some(rs.salt.len()) {
+        k.v("C07/selfsig/salt-size", format!("{what}: salt of {} octets for hash {}", rs.salt.len(), rs.hash_alg));
+    }
+    let label = alg_label(signer);
+    let Some(digest) = rs.digest_over(content) else {
+        k.ctx.inconclusive(format!("reference has no hash {}", rs.hash_alg));
+        return None;
+    };
+    if digest[..2] != rs.left16 {
+        k.v(
+            format!("C07/selfsig/left16/{label}"),
+            format!("{what}: left16 {} but the RFC digest starts {}", hex::encode(rs.left16), hex::encode(&digest[..2])),
+        );
+    } else {
+        match ref_verify(signer, &digest, &rs.sig_data) {
+            None => k.ctx.tally("ref_verify.no-primitive", 1),
+            Some(Ok(())) => k.ctx.tally("ref_verify.ok", 1),
+            Some(Err(e)) => k.v(
+                format!("C07/selfsig/independent-verify/{label}"),
+                format!("{what}: signature value does not verify with the primitive crate: {e}"),
+            ),
+        }
+    }
+    // leading-zero observation on the signature MPIs
+    let fs = match signer.alg {
+        19 | 22 => ecc_parts(&signer.material).and_then(|(o, _, _)| fsize_of_oid(o)),
+        17 => Some(32),
+        _ => None,
+    };
+    if let Some(fs) = fs {
+        if let Some((r, p)) = rfc::read_mpi(&rs.sig_data, 0) {
+            k.lz(&format!("{label}.sig_r"), r.len(), fs);
+            if let Some((s_, _)) = rfc::read_mpi(&rs.sig_data, p) {
+                k.lz(&format!("{label}.sig_s"), s_.len(), fs);
+            }
+        }
+    } else if signer.alg == 1 {
+        if let Some((m, _)) = rfc::read_mpi(&rs.sig_data, 0) {
+            k.lz("rsa.sig", m.len(), 256);
+        }
+    }
+    let hashed = match parse_subpackets(&rs.hashed) {
+        Ok(h) => h,
+        Err(e) => {
+            k.v("C07/selfsig/hashed-area", format!("{what}: {e}"));
+            return None;
+        }
+    };
+    let mut seen_types = std::collections::BTreeSet::new();
+    for sp in &hashed {
+        if !seen_types.insert(sp.typ) {
+            k.v("C07/selfsig/duplicate-subpacket", format!("{what}: subpacket type {} twice in the hashed area", sp.typ));
+        }
+    }
+    match find_sp(&hashed, 2) {
+        Some(sp) if sp.body.len() == 4 => {
+            let t = u32::from_be_bytes(sp.body[..].try_into().unwrap());
+            if t + 2 < window.0 || t > window.1 + 2 {
+                k.v("C07/selfsig/creation-time", format!("{what}: signature creation time {t} outside the generation window {window:?}"));
+            }
+        }
+        _ => k.v("C07/selfsig/creation-time", format!("{what}: no 4-octet signature creation time subpacket in the hashed area")),
+    }
+    let mut want_fp = vec![signer.version];
+    want_fp.extend(signer.fingerprint());
+    match find_sp(&hashed, 33) {
+        Some(sp) if sp.body == want_fp => {}
+        other => k.v(
+            "C07/selfsig/issuer-fingerprint",
+            format!("{what}: issuer fingerprint subpacket {:?}, expected {}", other.map(|s| hex::encode(&s.body)), hex::encode(&want_fp)),
+        ),
+    }
+    if let Ok(un) = parse_subpackets(&rs.unhashed) {
+        if let Some(sp) = find_sp(&un, 16) {
+            if sp.body != signer.key_id() {
+                k.v("C07/selfsig/issuer-key-id", format!("{what}: issuer key id {} is not the signer's", hex::encode(&sp.body)));
+            }
+            if signer.version == 6 {
+                k.v("C07/selfsig/issuer-key-id", format!("{what}: issuer key id subpacket on a v6 signature"));
+            }
+        }
+    }
+    Some(SigInfo { hashed })
+}
+
+/// Tallies of key material fields with a stripped / zero leading octet; `sec` = raw secret
+/// material (no checksum) if available.
+fn lz_key(k: &mut K, p: &RefPub, sec: Option<&[u8]>) {
+    let label = alg_label(p);
+    match p.alg {
+        18 | 19 | 22 => {
+            let Some((oid, pt, _)) = ecc_parts(&p.material) else { return };
+            let Some(fs) = fsize_of_oid(oid) else { return };
+            if pt.first() == Some(&4) && pt.len() == 1 + 2 * fs {
+                k.z0(&format!("{label}.pub_x"), pt.get(1));
+                k.z0(&format!("{label}.pub_y"), pt.get(1 + fs));
+                k.ctx.tally(&format!("n.{label}.pub"), 1);
+            } else if pt.first() == Some(&0x40) {
+                k.z0(&format!("{label}.pub"), pt.get(1));
+                k.ctx.tally(&format!("n.{label}.pub"), 1);
+            }
+            if let Some(sec) = sec {
+                if let Some((d, _)) = rfc::read_mpi(sec, 0) {
+                    k.lz(&format!("{label}.secret"), d.len(), fs);
+                }
+            }
+        }
+        17 => {
+            // p, q, g, y
+            let mut pos = 0;
+            let mut lens = vec![];
+            for _ in 0..4 {
+                if let Some((v, n)) = rfc::read_mpi(&p.material, pos) {
+                    lens.push(v.len());
+                    pos = n;
+                }
+            }
+            if lens.len() == 4 {
+                k.lz("dsa.pub_y", lens[3], lens[0]);
+                if let Some(sec) = sec {
+                    if let Some((x, _)) = rfc::read_mpi(sec, 0) {
+                        k.lz("dsa.secret_x", x.len(), lens[1]);
+                    }
+                }
+            }
+        }
+        1 => {
+            if let Some(sec) = sec {
+                // d, p, q, u
+                let mut pos = 0;
+                for (name, full) in [("d", 256usize), ("p", 128), ("q", 128), ("u", 128)] {
+                    if let Some((v, n)) = rfc::read_mpi(sec, pos) {
+                        k.lz(&format!("rsa.secret_{name}"), v.len(), full);
+                        pos = n;
+                    }
+                }
+            }
+        }
+        _ => {}
+    }
+}
+
+// ------------------------------------------------------------------------------------------
+// export / import equality
+
+/// true if the two packets differ only in their in-memory packet header
+fn header_only<T: PacketTrait + PartialEq>(a: &T, b: &T, same_rest: bool) -> bool {
+    a != b && same_rest && a.packet_header() != b.packet_header()
+}
+
+/// Compares the original with the re-imported key; returns false if they differ.
+fn compare_secret(k: &mut K, how: &str, orig: &SignedSecretKey, re: &SignedSecretKey, bytes: &[u8], stale_reported: &mut bool) -> bool {
+    if orig == re {
+        return true;
+    }
+    let mut parts: Vec<String> = vec![];
+    let mut other = false;
+    if orig.primary_key != re.primary_key {
+        let (a, b) = (&orig.primary_key, &re.primary_key);
+        if header_only(a, b, a.public_key() == b.public_key() && a.secret_params() == b.secret_params()) {
+            parts.push(format!(
+                "primary key packet header in memory {:?} vs re-imported {:?} (body length written {})",
+                a.packet_header().packet_length(),
+                b.packet_header().packet_length(),
+                a.write_len()
+            ));
+        } else {
+            other = true;
+            parts.push("primary key packet".into());
+        }
+    }
+    if orig.details != re.details {
+        other = true;
+        parts.push("details (signatures / user ids)".into());
+    }
+    if orig.public_subkeys != re.public_subkeys {
+        other = true;
+        parts.push("public subkeys".into());
+    }
+    if orig.secret_subkeys.len() != re.secret_subkeys.len() {
+        other = true;
+        parts.push(format!("{} vs {} secret subkeys", orig.secret_subkeys.len(), re.secret_subkeys.len()));
+    } else {
+        for (i, (a, b)) in orig.secret_subkeys.iter().zip(&re.secret_subkeys).enumerate() {
+            if a.signatures != b.signatures {
+                other = true;
+                parts.push(format!("subkey {i} signatures"));
+            }
+            if a.key != b.key {
+                if header_only(&a.key, &b.key, a.key.public_key() == b.key.public_key() && a.key.secret_params() == b.key.secret_params()) {
+                    parts.push(format!(
+                        "subkey {i} packet header in memory {:?} vs re-imported {:?} (body length written {})",
+                        a.key.packet_header().packet_length(),
+                        b.key.packet_header().packet_length(),
+                        a.key.write_len()
+                    ));
+                } else {
+                    other = true;
+                    parts.push(format!("subkey {i} key packet"));
+                }
+            }
+        }
+    }
+    let re_bytes = re.to_bytes().unwrap_or_default();
+    let same_bytes = re_bytes == bytes;
+    let stable = SignedSecretKey::from_bytes(&re_bytes[..]).map(|k3| &k3 == re).unwrap_or(false);
+    if !other && same_bytes && stable {
+        // Every field except the cached packet header is equal, both values export to the same
+        // octets and the re-imported value is a fixed point: the generated value carries a packet
+        // header whose length is not the length of the packet it describes.
+        if !*stale_reported {
+            *stale_reported = true;
+            k.v(
+                "C07/roundtrip/secret-not-equal/stale-packet-header-of-locked-key",
+                format!("generated key != key re-imported from its own {how} export: {}", parts.join("; ")),
+            );
+        }
+    } else {
+        k.v(
+            format!("C07/roundtrip/{how}/secret-not-equal"),
+            format!(
+                "generated key != key re-imported from its own {how} export: differing parts: {}; re-export identical: {same_bytes}; second round trip stable: {stable}",
+                parts.join("; ")
+            ),
+        );
+    }
+    false
+}
+
+// ------------------------------------------------------------------------------------------
+// one generated key
+
+fn check_key(ctx: &mut Ctx, fam: &str, idx: u64, s: &Shape) {
+    let desc = s.desc();
+    let mut k = K {
+        replay: json!({"family": fam, "index": idx, "seed": ctx.seed, "shape": desc}),
+        ctx,
+        desc,
+    };
+    let k = &mut k;
+    let mut prng = k.ctx.rng(&format!("{fam}.params"), idx);
+    let params = match build_params(s, &mut prng) {
+        Ok(p) => p,
+        Err(e) => {
+            if s.uncertain {
+                k.ctx.seen("uncertain-shape", format!("{} {}: refused at build ({e})", if s.v6 { "v6" } else { "v4" }, s.primary.name()));
+            } else {
+                k.v("C07/generate/legal-shape-refused/build", format!("builder refused a legal shape: {e}"));
+            }
+            return;
+        }
+    };
+    let mut rng = k.ctx.rng(&format!("{fam}.key"), idx);
+    let t0 = now_secs();
+    let key = match params.generate(&mut rng) {
+        Ok(key) => key,
+        Err(e) => {
+            k.ctx.eval();
+            if s.uncertain {
+                k.ctx.seen("uncertain-shape", format!("{} {}: refused at generate ({e})", if s.v6 { "v6" } else { "v4" }, s.primary.name()));
+            } else {
+                k.v("C07/generate/legal-shape-refused/generate", format!("generate() failed for a legal shape: {e}"));
+            }
+            return;
+        }
+    };
+    let t1 = now_secs();
+    k.ctx.eval();
+    if s.uncertain {
+        k.ctx.seen("uncertain-shape", format!("{} {}: accepted", if s.v6 { "v6" } else { "v4" }, s.primary.name()));
+    }
+    let ver = if s.v6 { "v6" } else { "v4" };
+    k.ctx.seen("primary", format!("{ver}-{}", s.primary.name()));
+    k.ctx.tally(&format!("keys.{ver}-{}", s.primary.name()), 1);
+    for sub in &s.subs {
+        k.ctx.seen("subkey", format!("{ver}-{}{}", sub.alg.name(), if sub.sign { "-sign" } else if sub.enc != EncryptionCaps::None { "-enc" } else { "-auth" }));
+        k.ctx.tally(&format!("subkeys.{}", sub.alg.name()), 1);
+    }
+    let has_enc = s.enc != EncryptionCaps::None || s.subs.iter().any(|x| x.enc != EncryptionCaps::None);
+    let has_sig = s.subs.iter().any(|x| x.sign);
+    k.ctx.seen(
+        "subkey-set",
+        match (s.subs.is_empty(), has_enc, has_sig) {
+            (true, _, _) => "none",
+            (_, true, true) => "encryption+signing",
+            (_, true, false) => "encryption",
+            (_, false, true) => "signing",
+            _ => "authentication",
+        },
+    );
+    k.ctx.seen(
+        "lock",
+        match &s.pass {
+            None => "unlocked".to_string(),
+            Some(_) => format!("{ver}-{}", s.s2k.name()),
+        },
+    );
+    k.ctx.seen("uids", format!("{ver}-{}", s.uids.len()));
+    if s.attr.is_some() {
+        k.ctx.seen("uids", "user-attribute");
+    }
+    k.ctx.seen("prefs", if s.sym.is_empty() { "empty" } else { "some" });
+
+    // (a) bindings
+    let plabel = s.primary.name();
+    if let Err(e) = key.verify_bindings() {
+        k.v(format!("C07/verify-bindings/secret/{plabel}"), format!("SignedSecretKey::verify_bindings: {e}"));
+    }
+    k.ctx.eval();
+    let pk = key.to_public_key();
+    if let Err(e) = pk.verify_bindings() {
+        k.v(format!("C07/verify-bindings/public/{plabel}"), format!("SignedPublicKey::verify_bindings: {e}"));
+    }
+    k.ctx.eval();
+    if SignedPublicKey::from(key.clone()) != pk {
+        k.v("C07/public-half/from-vs-to_public_key", "SignedPublicKey::from(key) != key.to_public_key()");
+    }
+
+    // (b) export + import
+    let bytes = match key.to_bytes() {
+        Ok(b) => b,
+        Err(e) => {
+            k.v("C07/export/binary-error", format!("to_bytes: {e}"));
+            return;
+        }
+    };
+    k.replay["key"] = json!(hexs(&bytes));
+    k.ctx.cover(&(key.fingerprint().as_bytes().to_vec(), s.subs.len(), s.pass.is_some()));
+    let mut stale = false;
+    let reimported: Option<SignedSecretKey> = match SignedSecretKey::from_bytes(&bytes[..]) {
+        Ok(k2) => {
+            compare_secret(k, "binary", &key, &k2, &bytes, &mut stale);
+            Some(k2)
+        }
+        Err(e) => {
+            k.v("C07/roundtrip/binary/import-error", format!("from_bytes of the own export: {e}"));
+            None
+        }
+    };
+    k.ctx.eval();
+    match key.to_armored_string(ArmorOptions::default()) {
+        Err(e) => k.v("C07/export/armor-error", format!("to_armored_string: {e}")),
+        Ok(arm) => {
+            match SignedSecretKey::from_string(&arm) {
+                Ok((k3, _)) => {
+                    compare_secret(k, "armored", &key, &k3, &bytes, &mut stale);
+                    if let Some(k2) = &reimported {
+                        if &k3 != k2 {
+                            k.v("C07/roundtrip/armored-vs-binary", "key parsed from the armored export != key parsed from the binary export");
+                        }
+                    }
+                }
+                Err(e) => k.v("C07/roundtrip/armored/import-error", format!("from_string of the own export: {e}")),
+            }
+            if let Ok(pa) = rfc::armor::armor_parse_strict(arm.trim_end_matches('\n')) {
+                if pa.data != bytes || pa.typ != "PGP PRIVATE KEY BLOCK" {
+                    k.v("C07/export/armor-payload", format!("armored export ({}) does not carry the binary export", pa.typ));
+                }
+            }
+        }
+    }
+    k.ctx.eval();
+    let pbytes = match pk.to_bytes() {
+        Ok(b) => b,
+        Err(e) => {
+            k.v("C07/export/public-binary-error", format!("to_bytes: {e}"));
+            return;
+        }
+    };
+    let pk2 = match SignedPublicKey::from_bytes(&pbytes[..]) {
+        Ok(p2) => {
+            if p2 != pk {
+                let re = p2.to_bytes().unwrap_or_default();
+                k.v("C07/roundtrip/binary/public-not-equal", format!("public key != re-imported public key; re-export identical: {}", re == pbytes));
+            }
+            Some(p2)
+        }
+        Err(e) => {
+            k.v("C07/roundtrip/binary/public-import-error", format!("{e}"));
+            None
+        }
+    };
+    match pk.to_armored_string(ArmorOptions::default()) {
+        Err(e) => k.v("C07/export/public-armor-error", format!("{e}")),
+        Ok(arm) => match SignedPublicKey::from_string(&arm) {
+            Ok((p3, _)) => {
+                if p3 != pk {
+                    k.v("C07/roundtrip/armored/public-not-equal", "public key != public key re-imported from the armored export");
+                }
+                if let Err(e) = p3.verify_bindings() {
+                    k.v(format!("C07/verify-bindings/public-reimported/{plabel}"), format!("{e}"));
+                }
+            }
+            Err(e) => k.v("C07/roundtrip/armored/public-import-error", format!("{e}")),
+        },
+    }
+    k.ctx.eval();
+    if let Some(k2) = &reimported {
+        if let Err(e) = k2.verify_bindings() {
+            k.v(format!("C07/verify-bindings/secret-reimported/{plabel}"), format!("{e}"));
+        }
+    }
+
+    check_reference(k, s, &bytes, &pbytes, (t0, t1));
+    check_accessors(k, s, &key);
+    // usability with the re-imported values where available: stripped MPIs must be re-padded
+    let use_sec = reimported.as_ref().unwrap_or(&key);
+    let use_pub = pk2.as_ref().unwrap_or(&pk);
+    check_usability(k, s, idx, fam, &key, use_sec, use_pub);
+}
+
+// ------------------------------------------------------------------------------------------
+// (c)/(d) through the reference parser of the exported bytes
+
+fn check_key_packet(k: &mut K, what: &str, kp: &RefKeyPkt, want_tag: u8, v6: bool, alg: Alg, created: u32, locked: bool, s: &Shape) {
+    if kp.tag != want_tag {
+        k.v("C07/export/packet-tag", format!("{what}: packet tag {} instead of {want_tag}", kp.tag));
+    }
+    let p = &kp.public;
+    if p.version != if v6 { 6 } else { 4 } {
+        k.v("C07/requested/key-version", format!("{what}: key version {} on the wire", p.version));
+    }
+    if p.alg != alg.id() {
+        k.v("C07/requested/algorithm", format!("{what}: algorithm id {} on the wire, requested {}", p.alg, alg.name()));
+        return;
+    }
+    if p.created != created {
+        k.v("C07/requested/creation-time", format!("{what}: key creation time {} on the wire, requested {created}", p.created));
+    }
+    if let Some(oid) = alg.oid() {
+        match ecc_parts(&p.material) {
+            Some((o, _, _)) if o == oid => {}
+            other => k.v("C07/requested/curve", format!("{what}: curve oid {:?}, requested {}", other.map(|x| hex::encode(x.0)), alg.name())),
+        }
+    }
+    if alg == Alg::Rsa {
+        match rfc::read_mpi(&p.material, 0) {
+            Some((n, _)) if n.len() == 256 && n[0] & 0x80 != 0 => {}
+            other => k.v("C07/requested/rsa-size", format!("{what}: modulus of {:?} octets for RSA 2048", other.map(|x| x.0.len()))),
+        }
+    }
+    if p.alg == 18 {
+        if let Some(e) = rfc::key::parse_ecdh_material(&p.material) {
+            let want = match alg {
+                Alg::EcdhP384 => (9, 8),
+                Alg::EcdhP521 => (10, 9),
+                _ => (8, 7),
+            };
+            if (e.kdf_hash, e.kek_alg) != want {
+                if v6 {
+                    // RFC 9580 11.5.1: v6 ECDH keys MUST use the listed KDF/KEK parameters
+                    k.v("C07/requested/ecdh-kdf-params", format!("{what}: KDF hash {} / KEK {} for {}", e.kdf_hash, e.kek_alg, alg.name()));
+                } else {
+                    k.ctx.tally("ecdh.v4.nonstandard-kdf-params", 1);
+                }
+            }
+        } else {
+            k.v("C07/requested/ecdh-kdf-params", format!("{what}: ECDH public material not parsable"));
+        }
+    }
+    // secret part
+    let Some(sec) = RefSecret::parse(&kp.body) else {
+        k.ctx.inconclusive("reference cannot parse secret key packet");
+        return;
+    };
+    let usage = sec.protection.usage();
+    if !locked {
+        if usage != 0 {
+            k.v("C07/lock/unrequested-protection", format!("{what}: S2K usage {usage} although no passphrase was requested"));
+            return;
+        }
+    } else {
+        let want: &[u8] = match s.s2k {
+            S2kKind::CfbIter => &[254],
+            S2kKind::AeadIter | S2kKind::AeadArgon2 => &[253],
+            S2kKind::Default => {
+                if v6 {
+                    &[253]
+                } else {
+                    &[254]
+                }
+            }
+        };
+        if !want.contains(&usage) {
+            k.v("C07/lock/s2k-usage", format!("{what}: S2K usage {usage}, requested {}", s.s2k.name()));
+        }
+    }
+    let pw = if locked { s.pass.clone().unwrap_or_default() } else { String::new() };
+    // the library default for v6 is Argon2 with 64 MiB: the reference can do it, it is just slow
+    match sec.unlock(kp.tag, pw.as_bytes()) {
+        None => {
+            k.ctx.tally("ref_unlock.unsupported", 1);
+            lz_key(k, p, None);
+        }
+        Some(Err(())) => {
+            k.v("C07/lock/reference-cannot-unlock", format!("{what}: the exported secret material (usage {usage}) does not unlock with the requested passphrase in the reference implementation"));
+            lz_key(k, p, None);
+        }
+        Some(Ok(m)) => {
+            k.ctx.eval();
+            match ref_pub_from_secret(p, &m) {
+                None => k.ctx.tally("ref_pub_from_secret.no-primitive", 1),
+                Some(Ok(())) => k.ctx.tally("ref_pub_from_secret.ok", 1),
+                Some(Err(e)) => k.v(format!("C07/self-consistency/public-vs-secret/{}", alg_label(p)), format!("{what}: {e}")),
+            }
+            lz_key(k, p, Some(&m));
+        }
+    }
+}
+
+fn check_reference(k: &mut K, s: &Shape, bytes: &[u8], pbytes: &[u8], window: (u32, u32)) {
+    let cert = match ref_cert(bytes) {
+        Ok(c) => c,
+        Err(e) => {
+            k.ctx.inconclusive(format!("reference cannot parse the exported key: {e}"));
+            return;
+        }
+    };
+    // public export = same certificate with the secret parts dropped
+    match ref_cert(pbytes) {
+        Err(e) => k.ctx.inconclusive(format!("reference cannot parse the exported public key: {e}")),
+        Ok(pc) => {
+            let same = pc.primary.tag == 6
+                && pc.primary.body == cert.primary.pub_body
+                && pc.direct == cert.direct
+                && pc.comps.len() == cert.comps.len()
+                && pc.comps.iter().zip(&cert.comps).all(|(a, b)| a.tag == b.tag && a.body == b.body && a.sigs == b.sigs)
+                && pc.subs.len() == cert.subs.len()
+                && pc.subs.iter().zip(&cert.subs).all(|(a, b)| a.0.tag == 14 && a.0.body == b.0.pub_body && a.1 == b.1);
+            if !same {
+                k.v("C07/public-half/differs-from-secret", "exported public key is not the exported secret key with the secret material dropped");
+            }
+        }
+    }
+    let locked_p = s.pass.is_some() && s.lock_primary;
+    check_key_packet(k, "primary", &cert.primary, 5, s.v6, s.primary, s.created, locked_p, s);
+
+    let meta = meta_of(s);
+    let kf = rfc::sig::key_hash_framing(&cert.primary.pub_body);
+    let signer = &cert.primary.public;
+
+    // direct key signatures
+    // v6: the key metadata lives on a direct key signature, so there must be one (RFC 9580 10.1.1);
+    // a v4 key needs none (the library makes none), but whatever is there must be valid
+    if s.v6 && cert.direct.is_empty() {
+        k.v("C07/structure/direct-key-signatures", "v6 key without direct key signature");
+    }
+    for (i, d) in cert.direct.iter().enumerate() {
+        if let Some(si) = check_selfsig(k, "direct key signature", d, &[0x1F], &[&kf], signer, window) {
+            check_meta_ref(k, "direct key signature", &si.hashed, &meta, s.v6 && i == 0);
+        }
+    }
+    // user ids and attributes
+    let want_comps = s.uids.len() + s.attr.is_some() as usize;
+    if cert.comps.len() != want_comps {
+        k.v("C07/structure/user-ids", format!("{} user id/attribute packets, requested {want_comps}", cert.comps.len()));
+    }
+    for (i, c) in cert.comps.iter().enumerate() {
+        let what = format!("component {i} (tag {})", c.tag);
+        let is_attr = c.tag == 17;
+        if i < s.uids.len() {
+            if is_attr || c.body != s.uids[i].as_bytes() {
+                k.v("C07/requested/user-id", format!("{what}: body {:?}, requested {:?}", String::from_utf8_lossy(&c.body), s.uids[i]));
+            }
+        } else if !is_attr {
+            k.v("C07/requested/user-id", format!("{what}: unrequested user id"));
+        } else if let Some(img) = &s.attr {
+            if !c.body.ends_with(img) {
+                k.v("C07/requested/user-attribute", format!("{what}: image data not carried"));
+            }
+        }
+        if c.sigs.is_empty() {
+            k.v("C07/structure/certifications", format!("{what}: no self-certification"));
+        }
+        let framing = rfc::sig::uid_hash_framing(4, is_attr, &c.body);
+        for sg in &c.sigs {
+            let Some(si) = check_selfsig(k, &what, sg, &[0x10, 0x11, 0x12, 0x13], &[&kf, &framing], signer, window) else { continue };
+            let is_primary_uid = i == 0 && s.has_primary && !is_attr;
+            let flagged = matches!(find_sp(&si.hashed, 25), Some(sp) if sp.body.first().is_some_and(|b| *b != 0));
+            if flagged != is_primary_uid {
+                k.v("C07/requested/primary-user-id", format!("{what}: primary-user-id flag is {flagged}, requested {is_primary_uid}"));
+            }
+            if !s.v6 {
+                // v4: the primary user id certification carries the key metadata
+                check_meta_ref(k, &what, &si.hashed, &meta, is_primary_uid);
+            } else {
+                check_meta_ref(k, &what, &si.hashed, &meta, false);
+            }
+        }
+    }
+    // subkeys
+    if cert.subs.len() != s.subs.len() {
+        k.v("C07/structure/subkeys", format!("{} subkeys, requested {}", cert.subs.len(), s.subs.len()));
+    }
+    for (i, ((kp, sigs), sub)) in cert.subs.iter().zip(&s.subs).enumerate() {
+        let what = format!("subkey {i} ({})", sub.alg.name());
+        check_key_packet(k, &what, kp, 7, s.v6, sub.alg, s.created.saturating_add(sub.created_off), s.pass.is_some() && sub.locked, s);
+        if sigs.is_empty() {
+            k.v("C07/structure/subkey-bindings", format!("{what}: no binding signature"));
+        }
+        let skf = rfc::sig::key_hash_framing(&kp.pub_body);
+        for sg in sigs {
+            let Some(si) = check_selfsig(k, &format!("{what} binding"), sg, &[0x18], &[&kf, &skf], signer, window) else { continue };
+            let want_flags = (sub.sign as u8) << 1 | caps_bits(sub.enc) | (sub.auth as u8) << 5;
+            if !flags_ok(find_sp(&si.hashed, 27), want_flags) {
+                k.v(
+                    "C07/meta-ref/subkey-flags",
+                    format!("{what}: key flags {:?}, requested {want_flags:02x}", find_sp(&si.hashed, 27).map(|s| hex::encode(&s.body))),
+                );
+            }
+            let unhashed = parse_sig(sg).ok().and_then(|r| parse_subpackets(&r.unhashed).ok()).unwrap_or_default();
+            let emb = find_sp(&si.hashed, 32).or_else(|| find_sp(&unhashed, 32));
+            match emb {
+                None => {
+                    if sub.sign {
+                        k.v(format!("C07/back-signature/missing/{}", alg_label(&kp.public)), format!("{what}: signing-capable subkey without embedded 0x19 signature"));
+                    }
+                }
+                Some(e) => {
+                    k.ctx.tally("backsig.checked", 1);
+                    // the back signature is made before the binding signature, by the subkey
+                    check_selfsig(k, &format!("{what} back-signature"), &e.body, &[0x19], &[&kf, &skf], &kp.public, window);
+                }
+            }
+        }
+    }
+}
+
+// ------------------------------------------------------------------------------------------
+// (c) through the library accessors
+
+fn flags_of(sig: &Signature) -> u8 {
+    let f = sig.key_flags();
+    (f.certify() as u8)
+        | (f.sign() as u8) << 1
+        | (f.encrypt_comms() as u8) << 2
+        | (f.encrypt_storage() as u8) << 3
+        | (f.shared() as u8) << 4
+        | (f.authentication() as u8) << 5
+        | (f.group() as u8) << 7
+}
+
+fn check_meta_acc(k: &mut K, what: &str, sig: &Signature, s: &Shape) {
+    let got = flags_of(sig);
+    if got != s.primary_flags() || sig.key_flags().adsk() || sig.key_flags().timestamping() {
+        k.v("C07/meta-accessor/key-flags", format!("{what}: key_flags() = {got:02x}, requested {:02x}", s.primary_flags()));
+    }
+    let (f1, f2) = sig.features().map(|f| (f.seipd_v1(), f.seipd_v2())).unwrap_or((false, false));
+    if (f1, f2) != (s.feat1, s.feat2) {
+        k.v("C07/meta-accessor/features", format!("{what}: features() seipd v1/v2 = {f1}/{f2}, requested {}/{}", s.feat1, s.feat2));
+    }
+    let sym: Vec<u8> = sig.preferred_symmetric_algs().iter().map(|a| u8::from(*a)).collect();
+    let hash: Vec<u8> = sig.preferred_hash_algs().iter().map(|a| u8::from(*a)).collect();
+    let comp: Vec<u8> = sig.preferred_compression_algs().iter().map(|a| u8::from(*a)).collect();
+    let aead: Vec<(u8, u8)> = sig.preferred_aead_algs().iter().map(|(a, b)| (u8::from(*a), u8::from(*b))).collect();
+    if sym != s.sym {
+        k.v("C07/meta-accessor/pref-sym", format!("{what}: {sym:?}, requested {:?}", s.sym));
+    }
+    if hash != s.hash {
+        k.v("C07/meta-accessor/pref-hash", format!("{what}: {hash:?}, requested {:?}", s.hash));
+    }
+    if comp != s.comp {
+        k.v("C07/meta-accessor/pref-compression", format!("{what}: {comp:?}, requested {:?}", s.comp));
+    }
+    if aead != s.aead {
+        k.v("C07/meta-accessor/pref-aead", format!("{what}: {aead:?}, requested {:?}", s.aead));
+    }
+}
+
+fn check_accessors(k: &mut K, s: &Shape, key: &SignedSecretKey) {
+    let want_ver = if s.v6 { KeyVersion::V6 } else { KeyVersion::V4 };
+    if key.primary_key.version() != want_ver
+        || u8::from(key.primary_key.algorithm()) != s.primary.id()
+        || key.primary_key.created_at().as_secs() != s.created
+    {
+        k.v(
+            "C07/requested/primary-accessors",
+            format!(
+                "primary key reports version {:?} algorithm {:?} created {}",
+                key.primary_key.version(),
+                key.primary_key.algorithm(),
+                key.primary_key.created_at().as_secs()
+            ),
+        );
+    }
+    if !key.details.revocation_signatures.is_empty() || !key.public_subkeys.is_empty() {
+        k.v("C07/structure/unrequested-parts", "generated key has revocation signatures or public-only subkeys");
+    }
+    if s.v6 {
+        match key.details.direct_signatures.first() {
+            Some(sig) => check_meta_acc(k, "direct key signature", sig, s),
+            None => k.v("C07/structure/direct-key-signatures", "v6 key without direct key signature (accessor)"),
+        }
+    }
+    let ids: Vec<Vec<u8>> = key.details.users.iter().map(|u| u.id.id().to_vec()).collect();
+    let want: Vec<Vec<u8>> = s.uids.iter().map(|u| u.as_bytes().to_vec()).collect();
+    if ids != want {
+        k.v("C07/requested/user-id", format!("details.users = {:?}, requested {:?}", ids.iter().map(|i| String::from_utf8_lossy(i).to_string()).collect::<Vec<_>>(), s.uids));
+    } else {
+        for (i, u) in key.details.users.iter().enumerate() {
+            let want_primary = i == 0 && s.has_primary;
+            if u.is_primary() != want_primary {
+                k.v("C07/requested/primary-user-id", format!("user {i}: is_primary() = {}, requested {want_primary}", u.is_primary()));
+            }
+            if !s.v6 && want_primary {
+                match u.signatures.first() {
+                    Some(sig) => check_meta_acc(k, "primary user id certification", sig, s),
+                    None => k.v("C07/structure/certifications", "primary user id without signature"),
+                }
+            }
+        }
+    }
+    if key.details.user_attributes.len() != s.attr.is_some() as usize {
+        k.v("C07/requested/user-attribute", format!("{} user attributes", key.details.user_attributes.len()));
+    }
+    if key.secret_subkeys.len() != s.subs.len() {
+        k.v("C07/structure/subkeys", format!("{} secret subkeys (accessor), requested {}", key.secret_subkeys.len(), s.subs.len()));
+        return;
+    }
+    for (i, (sk, sub)) in key.secret_subkeys.iter().zip(&s.subs).enumerate() {
+        let what = format!("subkey {i} ({})", sub.alg.name());
+        if sk.key.version() != want_ver
+            || u8::from(sk.key.algorithm()) != sub.alg.id()
+            || sk.key.created_at().as_secs() != s.created.saturating_add(sub.created_off)
+        {
+            k.v("C07/requested/subkey-accessors", format!("{what}: version {:?} algorithm {:?} created {}", sk.key.version(), sk.key.algorithm(), sk.key.created_at().as_secs()));
+        }
+        let Some(sig) = sk.signatures.first() else {
+            k.v("C07/structure/subkey-bindings", format!("{what}: no binding signature"));
+            continue;
+        };
+        let want_flags = (sub.sign as u8) << 1 | caps_bits(sub.enc) | (sub.auth as u8) << 5;
+        if flags_of(sig) != want_flags {
+            k.v("C07/meta-accessor/subkey-flags", format!("{what}: key_flags() = {:02x}, requested {want_flags:02x}", flags_of(sig)));
+        }
+        match sig.embedded_signature() {
+            None => {
+                if sub.sign {
+                    k.v(format!("C07/back-signature/missing-accessor/{}", sub.alg.name()), format!("{what}: embedded_signature() is None for a signing subkey"));
+                }
+            }
+            Some(back) => {
+                if back.typ() != Some(SignatureType::KeyBinding) {
+                    k.v("C07/back-signature/type", format!("{what}: embedded signature of type {:?}", back.typ()));
+                }
+                if let Err(e) = back.verify_primary_key_binding(sk.key.public_key(), key.primary_key.public_key()) {
+                    k.v(format!("C07/back-signature/verify/{}", sub.alg.name()), format!("{what}: verify_primary_key_binding: {e}"));
+                }
+                k.ctx.eval();
+            }
+        }
+    }
+}
+
+// ------------------------------------------------------------------------------------------
+// (e) usability
+
+fn password_of(s: &Shape) -> Password {
+    match &s.pass {
+        Some(p) => Password::from(p.as_str()),
+        None => Password::empty(),
+    }
+}
+
+fn wrong_passwords(s: &Shape) -> Vec<Password> {
+    let p = s.pass.clone().unwrap_or_default();
+    let mut v = vec![Password::from(format!("{p}x").as_str())];
+    if !p.is_empty() {
+        v.push(Password::empty());
+        v.push(Password::from(&p[..p.len() - p.chars().last().map(|c| c.len_utf8()).unwrap_or(0)]));
+    }
+    v
+}
+
+#[allow(clippy::too_many_arguments)]
+fn sign_check<S, V>(k: &mut K, what: &str, s: &Shape, signer: &S, verifier: &V, locked: bool, rng: &mut ChaCha8Rng, via_config: bool)
+where
+    S: SigningKey,
+    V: VerifyingKey + Serialize,
+{
+    let pw = password_of(s);
+    let n = rng.gen_range(0..200);
+    let mut data = vec![0u8; n];
+    rng.fill_bytes(&mut data);
+    let hash = signer.hash_alg();
+    let alg = format!("{:?}", signer.algorithm());
+    let res = if via_config {
+        (|| {
+            let mut cfg = SignatureConfig::from_key(&mut *rng, signer, SignatureType::Binary)?;
+            cfg.hashed_subpackets = vec![
+                Subpacket::regular(SubpacketData::SignatureCreationTime(Timestamp::now()))?,
+                Subpacket::regular(SubpacketData::IssuerFingerprint(signer.fingerprint()))?,
+            ];
+            cfg.sign(signer, &pw, &data[..])
+        })()
+    } else {
+        DetachedSignature::sign_binary_data(&mut *rng, signer, &pw, hash, &data[..]).map(|d| d.signature)
+    };
+    k.ctx.eval();
+    let sig = match res {
+        Ok(s) => s,
+        Err(e) => {
+            k.v(format!("C07/usability/sign-error/{alg}"), format!("{what}: signing {n} octets with {hash:?} failed: {e}"));
+            return;
+        }
+    };
+    if let Err(e) = sig.verify(verifier, &data[..]) {
+        k.v(format!("C07/usability/own-signature-rejected/{alg}"), format!("{what}: signature over {n} octets does not verify with the public half: {e}"));
+    }
+    k.ctx.eval();
+    let mut other = data.clone();
+    if other.is_empty() {
+        other.push(0);
+    } else {
+        let p = rng.gen_range(0..other.len());
+        other[p] ^= 1 << rng.gen_range(0..8);
+    }
+    if sig.verify(verifier, &other[..]).is_ok() {
+        k.v(format!("C07/usability/wrong-message-accepted/{alg}"), format!("{what}: signature verifies over a different message"));
+    }
+    k.ctx.eval();
+    // reference: digest and signature value
+    let (Ok(body), Ok(pbody)) = (sig.to_bytes(), verifier.to_bytes()) else { return };
+    let (Ok(rs), Some((rp, _))) = (parse_sig(&body), RefPub::parse_prefix(&pbody)) else {
+        k.ctx.inconclusive("reference cannot parse data signature / public key");
+        return;
+    };
+    if let Some(d) = rs.digest_document(&data) {
+        let label = alg_label(&rp);
+        if d[..2] != rs.left16 {
+            k.v(format!("C07/usability/data-signature-left16/{label}"), format!("{what}: left16 differs from the RFC digest"));
+        } else if let Some(Err(e)) = ref_verify(&rp, &d, &rs.sig_data) {
+            k.v(format!("C07/usability/data-signature-independent-verify/{label}"), format!("{what}: {e}"));
+        }
+        let fs = match rp.alg {
+            19 | 22 => ecc_parts(&rp.material).and_then(|(o, _, _)| fsize_of_oid(o)),
+            17 => Some(32),
+            _ => None,
+        };
+        if let Some(fs) = fs {
+            if let Some((r, p)) = rfc::read_mpi(&rs.sig_data, 0) {
+                k.lz(&format!("{label}.sig_r"), r.len(), fs);
+                if let Some((s_, _)) = rfc::read_mpi(&rs.sig_data, p) {
+                    k.lz(&format!("{label}.sig_s"), s_.len(), fs);
+                }
+            }
+        }
+    }
+    if locked {
+        for w in wrong_passwords(s).iter().take(1) {
+            if DetachedSignature::sign_binary_data(&mut *rng, signer, w, hash, &data[..]).is_ok() {
+                k.v("C07/lock/sign-with-wrong-passphrase", format!("{what}: signing succeeded with a wrong passphrase"));
+            }
+            k.ctx.eval();
+        }
+    }
+}
+
+fn encrypt_to<E: EncryptionKey>(rng: &mut ChaCha8Rng, v2: bool, payload: &[u8], e: &E) -> pgp::errors::Result<Vec<u8>> {
+    let sym = *[SymmetricKeyAlgorithm::AES128, SymmetricKeyAlgorithm::AES192, SymmetricKeyAlgorithm::AES256]
+        .choose(rng)
+        .unwrap();
+    if v2 {
+        let aead = *[AeadAlgorithm::Eax, AeadAlgorithm::Ocb, AeadAlgorithm::Gcm].choose(rng).unwrap();
+        let mut b = MessageBuilder::from_bytes("", payload.to_vec()).seipd_v2(&mut *rng, sym, aead, ChunkSize::default());
+        b.encrypt_to_key(&mut *rng, e)?;
+        b.to_vec(&mut *rng)
+    } else {
+        let mut b = MessageBuilder::from_bytes("", payload.to_vec()).seipd_v1(&mut *rng, sym);
+        b.encrypt_to_key(&mut *rng, e)?;
+        b.to_vec(&mut *rng)
+    }
+}
+
+fn decrypt_with(ct: &[u8], pw: &Password, key: &SignedSecretKey) -> Result<Vec<u8>, String> {
+    let msg = Message::from_bytes(ct).map_err(|e| format!("parse: {e}"))?;
+    let mut dec = msg.decrypt(pw, key).map_err(|e| format!("decrypt: {e}"))?;
+    dec.as_data_vec().map_err(|e| format!("read: {e}"))
+}
+
+fn encrypt_check<E: EncryptionKey>(k: &mut K, what: &str, s: &Shape, enc: &E, sec: &SignedSecretKey, locked: bool, rng: &mut ChaCha8Rng) {
+    let n = rng.gen_range(0..300);
+    let mut payload = vec![0u8; n];
+    rng.fill_bytes(&mut payload);
+    let alg = format!("{:?}", enc.algorithm());
+    let ct = match encrypt_to(rng, s.v6, &payload, enc) {
+        Ok(c) => c,
+        Err(e) => {
+            k.v(format!("C07/usability/encrypt-error/{alg}"), format!("{what}: encrypting to the generated key failed: {e}"));
+            return;
+        }
+    };
+    k.ctx.eval();
+    match decrypt_with(&ct, &password_of(s), sec) {
+        Ok(p) if p == payload => {}
+        Ok(p) => k.v(format!("C07/usability/decrypt-wrong-plaintext/{alg}"), format!("{what}: decrypted {} octets, sent {n}", p.len())),
+        Err(e) => k.v(format!("C07/usability/decrypt-error/{alg}"), format!("{what}: message to the generated key does not decrypt with it: {e}")),
+    }
+    k.ctx.eval();
+    if locked {
+        if let Some(w) = wrong_passwords(s).first() {
+            if decrypt_with(&ct, w, sec).is_ok() {
+                k.v("C07/lock/decrypt-with-wrong-passphrase", format!("{what}: decryption succeeded with a wrong passphrase"));
+            }
+            k.ctx.eval();
+        }
+    }
+}
+
+fn check_usability(k: &mut K, s: &Shape, idx: u64, fam: &str, orig: &SignedSecretKey, re: &SignedSecretKey, pubk: &SignedPublicKey) {
+    let mut rng = k.ctx.rng(&format!("{fam}.use"), idx);
+    if re.secret_subkeys.len() != s.subs.len() || pubk.public_subkeys.len() != s.subs.len() || orig.secret_subkeys.len() != s.subs.len() {
+        return; // reported by the structure checks
+    }
+    let pw = password_of(s);
+    // the library default S2K of v6 keys is Argon2 with 64 MiB: keep the number of derivations small
+    let costly = s.pass.is_some() && s.s2k == S2kKind::Default;
+    let mut wrong = wrong_passwords(s);
+    if costly {
+        wrong.truncate(1);
+    }
+    let locked_p = s.pass.is_some() && s.lock_primary;
+    // unlock with right / wrong passphrase
+    let unlock_check = |k: &mut K, what: &str, locked: bool, f: &dyn Fn(&Password) -> bool| {
+        if !f(&pw) {
+            k.v("C07/lock/unlock-fails", format!("{what}: unlock with the requested passphrase failed (locked: {locked})"));
+        }
+        k.ctx.eval();
+        if locked {
+            for w in &wrong {
+                if f(w) {
+                    k.v("C07/lock/unlock-with-wrong-passphrase", format!("{what}: unlock succeeded with a wrong passphrase"));
+                }
+                k.ctx.eval();
+            }
+        }
+    };
+    for (name, key) in [("generated", orig), ("re-imported", re)] {
+        if costly && name == "generated" {
+            continue;
+        }
+        unlock_check(k, &format!("{name} primary"), locked_p, &|p| matches!(key.primary_key.unlock(p, |_, _| Ok(())), Ok(Ok(()))));
+        for (i, sk) in key.secret_subkeys.iter().enumerate() {
+            let locked = s.pass.is_some() && s.subs[i].locked;
+            unlock_check(k, &format!("{name} subkey {i}"), locked, &|p| matches!(sk.key.unlock(p, |_, _| Ok(())), Ok(Ok(()))));
+        }
+    }
+    // signing: alternate between the generated value and the re-imported one
+    let pick = |i: u64| if (idx + i) % 2 == 0 { orig } else { re };
+    if s.sign {
+        sign_check(k, "primary", s, &pick(0).primary_key, &pubk.primary_key, locked_p, &mut rng, idx % 3 == 0);
+    }
+    for (i, sub) in s.subs.iter().enumerate() {
+        if sub.sign {
+            let locked = s.pass.is_some() && sub.locked;
+            sign_check(k, &format!("subkey {i}"), s, &pick(i as u64 + 1).secret_subkeys[i].key, &pubk.public_subkeys[i].key, locked, &mut rng, (idx + i as u64) % 3 == 1);
+        }
+    }
+    // encryption: always decrypt with the re-imported secret key (stripped scalars re-padded)
+    let dec_key = if idx % 4 == 3 { orig } else { re };
+    if s.enc != EncryptionCaps::None {
+        encrypt_check(k, "primary", s, &pubk.primary_key, dec_key, locked_p, &mut rng);
+    }
+    for (i, sub) in s.subs.iter().enumerate() {
+        if sub.enc != EncryptionCaps::None {
+            let locked = s.pass.is_some() && sub.locked;
+            encrypt_check(k, &format!("subkey {i} ({})", sub.alg.name()), s, &pubk.public_subkeys[i].key, dec_key, locked, &mut rng);
+        }
+    }
+}
+
+// ------------------------------------------------------------------------------------------
+// (f) builder validation
+
+struct VSub(KeyVersion, KeyType, bool, EncryptionCaps, bool);
+
+#[allow(clippy::too_many_arguments)]
+fn try_gen(pv: KeyVersion, kt: Option<KeyType>, sign: bool, enc: EncryptionCaps, auth: bool, uid: bool, subs: Vec<VSub>) -> Result<(), String> {
+    let mut b = SecretKeyParamsBuilder::default();
+    b.version(pv).can_certify(true).can_sign(sign).can_encrypt(enc).can_authenticate(auth).created_at(Timestamp::from_secs(1_700_000_000));
+    if let Some(kt) = kt {
+        b.key_type(kt);
+    }
+    if uid {
+        b.primary_user_id("Validation <v@example.org>".into());
+    }
+    for VSub(v, kt, sg, en, au) in subs {
+        let sp = SubkeyParamsBuilder::default()
+            .version(v)
+            .key_type(kt)
+            .can_sign(sg)
+            .can_encrypt(en)
+            .can_authenticate(au)
+            .created_at(Timestamp::from_secs(1_700_000_000))
+            .build()
+            .map_err(|e| format!("subkey build: {e}"))?;
+        b.subkey(sp);
+    }
+    let params = b.build().map_err(|e| format!("build: {e}"))?;
+    let key = params.generate(Ctx::fixed_rng("c07.validation", 0)).map_err(|e| format!("generate: {e}"))?;
+    key.verify_bindings().map_err(|e| format!("generated but verify_bindings fails: {e}"))?;
+    Ok(())
+}
+
+fn validation_family(ctx: &mut Ctx) {
+    use EncryptionCaps::{All as EA, None as EN};
+    use KeyVersion::{V4, V6};
+    let ed = || KeyType::Ed25519;
+    // (name, must be refused?, result)
+    let mut cases: Vec<(&str, bool, Box<dyn Fn() -> Result<(), String>>)> = vec![];
+    macro_rules! case {
+        ($name:expr, $refused:expr, $e:expr) => {
+            cases.push(($name, $refused, Box::new(move || $e)));
+        };
+    }
+    // version mixes
+    case!("v6 primary + v4 subkey", true, try_gen(V6, Some(ed()), true, EN, false, true, vec![VSub(V4, KeyType::X25519, false, EA, false)]));
+    case!("v4 primary + v6 subkey", true, try_gen(V4, Some(ed()), true, EN, false, true, vec![VSub(V6, KeyType::X25519, false, EA, false)]));
+    case!("v6 primary + v4 signing subkey", true, try_gen(V6, Some(ed()), true, EN, false, true, vec![VSub(V4, ed(), true, EN, false)]));
+    case!("v6 primary + v6 and v4 subkeys", true, try_gen(V6, Some(ed()), true, EN, false, true, vec![VSub(V6, KeyType::X25519, false, EA, false), VSub(V4, KeyType::X25519, false, EA, false)]));
+    // legacy 25519 formats are v4 only
+    case!("v6 Ed25519Legacy primary", true, try_gen(V6, Some(KeyType::Ed25519Legacy), true, EN, false, true, vec![]));
+    case!("v6 Ed25519Legacy subkey", true, try_gen(V6, Some(ed()), true, EN, false, true, vec![VSub(V6, KeyType::Ed25519Legacy, true, EN, false)]));
+    case!("v6 ECDH Curve25519Legacy subkey", true, try_gen(V6, Some(ed()), true, EN, false, true, vec![VSub(V6, KeyType::ECDH(ECCCurve::Curve25519Legacy), false, EA, false)]));
+    // RSA sizes
+    case!("v4 RSA 1024", true, try_gen(V4, Some(KeyType::Rsa(1024)), true, EN, false, true, vec![]));
+    case!("v4 RSA 2047", true, try_gen(V4, Some(KeyType::Rsa(2047)), true, EN, false, true, vec![]));
+    case!("v6 RSA 1024", true, try_gen(V6, Some(KeyType::Rsa(1024)), true, EN, false, true, vec![]));
+    case!("v4 RSA 0", true, try_gen(V4, Some(KeyType::Rsa(0)), true, EN, false, true, vec![]));
+    case!("RSA 1024 subkey", true, try_gen(V4, Some(ed()), true, EN, false, true, vec![VSub(V4, KeyType::Rsa(1024), false, EA, false)]));
+    // ECDSA curves
+    for (n, c) in [
+        ("ECDSA over Curve25519Legacy", ECCCurve::Curve25519Legacy),
+        ("ECDSA over Ed25519Legacy", ECCCurve::Ed25519Legacy),
+        ("ECDSA over brainpoolP256r1", ECCCurve::BrainpoolP256r1),
+        ("ECDSA over brainpoolP384r1", ECCCurve::BrainpoolP384r1),
+        ("ECDSA over brainpoolP512r1", ECCCurve::BrainpoolP512r1),
+    ] {
+        let c2 = c.clone();
+        case!(n, true, try_gen(V4, Some(KeyType::ECDSA(c.clone())), true, EN, false, true, vec![]));
+        cases.push(("ECDSA subkey over an unsupported curve", true, Box::new(move || try_gen(V4, Some(KeyType::Ed25519), true, EN, false, true, vec![VSub(V4, KeyType::ECDSA(c2.clone()), true, EN, false)]))));
+    }
+    // ECDH curves that cannot be generated
+    for (n, c) in [
+        ("ECDH over secp256k1", ECCCurve::Secp256k1),
+        ("ECDH over Ed25519Legacy", ECCCurve::Ed25519Legacy),
+        ("ECDH over brainpoolP256r1", ECCCurve::BrainpoolP256r1),
+    ] {
+        case!(n, true, try_gen(V4, Some(KeyType::Ed25519), true, EN, false, true, vec![VSub(V4, KeyType::ECDH(c.clone()), false, EA, false)]));
+    }
+    // capabilities the algorithm does not have
+    case!("sign on ECDH P-256 primary", true, try_gen(V4, Some(KeyType::ECDH(ECCCurve::P256)), true, EN, false, true, vec![]));
+    case!("sign on X25519 primary", true, try_gen(V6, Some(KeyType::X25519), true, EN, false, true, vec![]));
+    case!("sign on X448 primary", true, try_gen(V6, Some(KeyType::X448), true, EN, false, true, vec![]));
+    case!("sign on X25519 subkey", true, try_gen(V6, Some(ed()), true, EN, false, true, vec![VSub(V6, KeyType::X25519, true, EN, false)]));
+    case!("sign on ECDH subkey", true, try_gen(V4, Some(ed()), true, EN, false, true, vec![VSub(V4, KeyType::ECDH(ECCCurve::P384), true, EA, false)]));
+    case!("authenticate on X25519 subkey", true, try_gen(V6, Some(ed()), true, EN, false, true, vec![VSub(V6, KeyType::X25519, false, EA, true)]));
+    case!("authenticate on X448 primary", true, try_gen(V6, Some(KeyType::X448), false, EN, true, true, vec![]));
+    case!("encrypt on Ed25519 primary", true, try_gen(V6, Some(ed()), true, EA, false, true, vec![]));
+    case!("encrypt(comms) on Ed448 primary", true, try_gen(V6, Some(KeyType::Ed448), true, EncryptionCaps::Communication, false, true, vec![]));
+    case!("encrypt(storage) on ECDSA primary", true, try_gen(V4, Some(KeyType::ECDSA(ECCCurve::P256)), true, EncryptionCaps::Storage, false, true, vec![]));
+    case!("encrypt on Ed25519Legacy primary", true, try_gen(V4, Some(KeyType::Ed25519Legacy), true, EA, false, true, vec![]));
+    case!("encrypt on Ed25519 subkey", true, try_gen(V6, Some(ed()), true, EN, false, true, vec![VSub(V6, ed(), false, EA, false)]));
+    case!("encrypt on ECDSA subkey", true, try_gen(V4, Some(ed()), true, EN, false, true, vec![VSub(V4, KeyType::ECDSA(ECCCurve::P521), false, EncryptionCaps::Storage, false)]));
+    // mandatory parts
+    case!("v4 without primary user id", true, try_gen(V4, Some(ed()), true, EN, false, false, vec![]));
+    case!("no key type", true, try_gen(V6, None, true, EN, false, true, vec![]));
+    // legal controls: each differs from an illegal case above in exactly the offending parameter
+    case!("v6 primary + v6 subkey", false, try_gen(V6, Some(ed()), true, EN, false, true, vec![VSub(V6, KeyType::X25519, false, EA, false)]));
+    case!("v4 primary + v4 subkey", false, try_gen(V4, Some(ed()), true, EN, false, true, vec![VSub(V4, KeyType::X25519, false, EA, false)]));
+    case!("v4 Ed25519Legacy + Curve25519Legacy", false, try_gen(V4, Some(KeyType::Ed25519Legacy), true, EN, false, true, vec![VSub(V4, KeyType::ECDH(ECCCurve::Curve25519Legacy), false, EA, false)]));
+    case!("v6 without user id", false, try_gen(V6, Some(ed()), true, EN, false, false, vec![]));
+    case!("v4 ECDSA P-256 + ECDH P-256", false, try_gen(V4, Some(KeyType::ECDSA(ECCCurve::P256)), true, EN, false, true, vec![VSub(V4, KeyType::ECDH(ECCCurve::P256), false, EA, false)]));
+    case!("v6 ECDSA secp256k1... v4", false, try_gen(V4, Some(KeyType::ECDSA(ECCCurve::Secp256k1)), true, EN, false, true, vec![]));
+    case!("authenticate on Ed25519 subkey", false, try_gen(V6, Some(ed()), true, EN, false, true, vec![VSub(V6, ed(), false, EN, true)]));
+    case!("sign on Ed448 subkey", false, try_gen(V6, Some(KeyType::Ed448), true, EN, false, true, vec![VSub(V6, KeyType::Ed448, true, EN, false)]));
+    case!("encrypt on X448 subkey", false, try_gen(V6, Some(ed()), true, EN, false, true, vec![VSub(V6, KeyType::X448, false, EncryptionCaps::Storage, false)]));
+
+    for (name, must_refuse, f) in cases {
+        describe_case(&format!("C07 validation: {name}"));
+        let replay = json!({"family": "validation", "case": name});
+        match guard(&f) {
+            Err(p) => ctx.violation(format!("C07/validation/panic/{}", p.short_loc()), format!("{name}: panic: {} at {}", p.msg, p.loc), replay),
+            Ok(r) => {
+                ctx.eval();
+                ctx.cover(&("validation", name));
+                match (must_refuse, r) {
+                    (true, Ok(())) => ctx.violation("C07/validation/illegal-mix-accepted", format!("{name}: build() and generate() succeeded"), replay),
+                    (true, Err(e)) if e.starts_with("generated but") => {
+                        ctx.violation("C07/validation/illegal-mix-accepted", format!("{name}: build() and generate() succeeded ({e})"), replay)
+                    }
+                    (true, Err(e)) => {
+                        ctx.seen("validation.refused", name);
+                        ctx.tally(if e.starts_with("generate") { "validation.refused-at-generate" } else { "validation.refused-at-build" }, 1);
+                    }
+                    (false, Ok(())) => ctx.seen("validation.accepted", name),
+                    (false, Err(e)) => ctx.violation("C07/validation/legal-mix-refused", format!("{name}: {e}"), replay),
+                }
+            }
+        }
+    }
+}
+
+// ------------------------------------------------------------------------------------------
+// slow families (RSA, DSA, library-default S2K) and the driver
+
+fn rsa_shape(r: &mut ChaCha8Rng, j: u64) -> Shape {
+    // start from a random fast shape to get user ids / preferences / locking, then force the algorithms
+    let mut s = fast_shape(r, Alg::Ed25519, j);
+    s.uncertain = false;
+    let lock_subs = s.subs.first().map(|x| x.locked).unwrap_or(s.pass.is_some());
+    let rsa_sub = |sign: bool, enc: EncryptionCaps| SubShape { alg: Alg::Rsa, sign, enc, auth: false, locked: lock_subs, created_off: 0 };
+    match (j / 2) % 5 {
+        0 => {
+            s.primary = Alg::Rsa;
+            s.enc = EncryptionCaps::All;
+            s.sign = true;
+            s.subs.clear();
+        }
+        1 => {
+            s.primary = Alg::Rsa;
+            s.subs = vec![rsa_sub(false, EncryptionCaps::All)];
+        }
+        2 => {
+            s.primary = Alg::Rsa;
+            s.enc = EncryptionCaps::Storage;
+            s.subs = vec![rsa_sub(true, EncryptionCaps::Communication)];
+        }
+        3 => {
+            // fast primary, RSA encryption subkey and RSA signing subkey
+            s.subs = vec![rsa_sub(false, EncryptionCaps::All), rsa_sub(true, EncryptionCaps::None)];
+        }
+        _ => {
+            s.primary = Alg::Rsa;
+            s.subs = vec![
+                SubShape { alg: if s.v6 { Alg::X25519 } else { Alg::EcdhCv }, sign: false, enc: EncryptionCaps::All, auth: false, locked: lock_subs, created_off: 0 },
+                SubShape { alg: Alg::P256, sign: true, enc: EncryptionCaps::None, auth: false, locked: lock_subs, created_off: 0 },
+            ];
+        }
+    }
+    s
+}
+
+fn dsa_shape(r: &mut ChaCha8Rng, j: u64) -> Shape {
+    let mut s = fast_shape(r, Alg::P256, j);
+    s.primary = Alg::Dsa;
+    // DSA is exercised mostly as v4 (RFC 9580 deprecates it); every fourth key asks for v6 and only
+    // records what the builder says
+    s.v6 = j % 4 == 3;
+    s.uncertain = s.v6;
+    if s.uids.is_empty() {
+        s.uids.push("Dsa <dsa@example.org>".into());
+    }
+    if !s.v6 {
+        s.has_primary = true;
+    }
+    for sub in s.subs.iter_mut() {
+        if s.v6 && sub.alg.v4_only() {
+            sub.alg = Alg::X25519;
+        }
+    }
+    s
+}
+
+fn default_s2k_shape(r: &mut ChaCha8Rng, j: u64) -> Shape {
+    let mut s = fast_shape(r, if j % 4 < 2 { Alg::Ed25519 } else { Alg::P256 }, j);
+    s.uncertain = false;
+    s.pass = Some(random_pass(r));
+    s.lock_primary = true;
+    s.s2k = S2kKind::Default;
+    s.subs = vec![SubShape { alg: if j % 4 < 2 { Alg::X25519 } else { Alg::EcdhP256 }, sign: false, enc: EncryptionCaps::All, auth: false, locked: true, created_off: 0 }];
+    s
+}
+
+fn run_case(ctx: &mut Ctx, fam: &str, idx: u64, s: &Shape) {
+    describe_case(&format!("C07 {fam} {idx}: {}", s.desc()));
+    if let Err(p) = guard(|| check_key(ctx, fam, idx, s)) {
+        if p.in_harness() {
+            ctx.inconclusive(format!("harness panic at {}: {}", p.loc, p.msg));
+        } else {
+            ctx.violation(
+                format!("C07/panic/{}", p.short_loc()),
+                format!("panic: {} at {}; shape: {}", p.msg, p.loc, s.desc()),
+                json!({"family": fam, "index": idx, "seed": ctx.seed, "shape": s.desc()}),
+            );
+        }
+    }
+}
 
 pub fn run(ctx: &mut Ctx) {
-    ctx.inconclusive("monitor not built yet");
+    // (f) builder validation: one case
+    if ctx.mine() {
+        validation_family(ctx);
+    }
+    // slow algorithms first, so that they spread over the shards
+    let n_rsa = ctx.qt(10u64, 200);
+    for j in 0..n_rsa {
+        if !ctx.mine() {
+            continue;
+        }
+        let mut r = ctx.rng("rsa.shape", j);
+        let s = rsa_shape(&mut r, j);
+        run_case(ctx, "rsa", j, &s);
+    }
+    let n_dsa = ctx.qt(8u64, 200);
+    for j in 0..n_dsa {
+        if !ctx.mine() {
+            continue;
+        }
+        let mut r = ctx.rng("dsa.shape", j);
+        let s = dsa_shape(&mut r, j);
+        run_case(ctx, "dsa", j, &s);
+    }
+    let n_def = ctx.qt(4u64, 48);
+    for j in 0..n_def {
+        if !ctx.mine() {
+            continue;
+        }
+        let mut r = ctx.rng("default-s2k.shape", j);
+        let s = default_s2k_shape(&mut r, j);
+        run_case(ctx, "default-s2k", j, &s);
+    }
+    // fast algorithms: N keys per primary algorithm, chosen so that each 1/256 leading-zero event
+    // is expected >= 9 times per field (P(no event) < 1e-4)
+    let scale = ctx.qt(1u64, 20);
+    let plan: [(Alg, u64); 7] = [
+        (Alg::EdLegacy, 2400),
+        (Alg::P256, 2400),
+        (Alg::P384, 2400),
+        (Alg::K256, 2400),
+        (Alg::P521, 1200),
+        (Alg::Ed25519, 1600),
+        (Alg::Ed448, 1000),
+    ];
+    for (alg, n) in plan {
+        for j in 0..n * scale {
+            if !ctx.mine() {
+                continue;
+            }
+            let fam = format!("fast.{}", alg.name());
+            let mut r = ctx.rng(&format!("{fam}.shape"), j);
+            let s = fast_shape(&mut r, alg, j);
+            run_case(ctx, &fam, j, &s);
+            if j < 2 {
+                ctx.sample(json!({"family": fam, "index": j, "shape": s.desc()}));
+            }
+        }
+    }
 }
